@@ -10,6 +10,11 @@ use sophia_api::term::GraphName;
 use std::collections::{BTreeSet, HashSet};
 use verif_harness::*;
 use sophia_api::source::IntoSource;
+use sophia_api::source::StreamError;
+use sophia_api::quad::Gspo;
+use sophia_api::graph::GTerm;
+use sophia_api::dataset::DTerm;
+use std::convert::Infallible;
 
 type Tid = u64;
 type T3 = [Tid; 3];
@@ -28,9 +33,35 @@ enum Op {
     VRemoveMatching(Option<Tid>, MD, MD, MD), VRetainMatching(Option<Tid>, MD, MD, MD), QUnionAtoms(u64), QGraphAtoms(Option<Tid>, u64),
     /// Graph::contains through a view: union, partial union (selector), one graph
     CUnion(T3), CPUnion(GD, T3), CGraph(Option<Tid>, T3),
+    // ---------- widened alphabet ----------
+    /// a Graph method on the graph-valued view store.path[0]().as_dataset().path[1]()...as_dataset().hop();
+    /// `how` selects among equivalent routes (constructor / method, &D / &&D / &mut D / owned, as_dataset variants),
+    /// `dr` the way the iterator is consumed
+    GObs { path: Vec<Hop>, hop: Hop, how: u8, obs: GObs, dr: u8 },
+    /// a Dataset method on the dataset-valued view store.path[0]().as_dataset()... (empty path: the store itself)
+    DObs { path: Vec<Hop>, how: u8, obs: DObs, dr: u8 },
+    /// insert / remove of the triple `t` through graph_mut(gs[0]).as_dataset_mut().graph_mut(gs[1])...
+    /// (on a graph store gs[0] is None and stands for the store itself)
+    Ins { gs: Vec<Option<Tid>>, t: T3, how: u8 }, Rem { gs: Vec<Option<Tid>>, t: T3, how: u8 },
+    /// insert_all / remove_all through the view named by `gs`; quads = the view is dataset-valued and every item
+    /// carries its own graph name, otherwise it is graph-valued and the items are triples
+    InsAll { gs: Vec<Option<Tid>>, quads: bool, items: Vec<Q4>, how: u8 }, RemAll { gs: Vec<Option<Tid>>, quads: bool, items: Vec<Q4>, how: u8 },
+    /// MutableGraph::remove_matching / retain_matching through graph_mut(g), by other routes than VRemoveMatching
+    RemMatching { g: Option<Tid>, m: (MD, MD, MD), how: u8 }, RetMatching { g: Option<Tid>, m: (MD, MD, MD), how: u8 },
+    /// MutableDataset::remove_matching / retain_matching on the store itself
+    DRemMatching(MD, MD, MD, GD), DRetMatching(MD, MD, MD, GD),
+    /// only on the stores whose enumerations can fail (Flaky, FlakyG): from now on every enumeration of the STORE
+    /// yields Err(MyErr(7)) first (true) / behaves normally (false)
+    SetFail(bool),
 }
+#[derive(Clone, Debug)]
+enum Hop { Union, PUnion(GD), Graph(Option<Tid>) }
+#[derive(Clone, Debug)]
+enum GObs { Matching(MD, MD, MD), All, Contains(T3), /** 0 subjects 1 predicates 2 objects */ Terms(u8), /** 0 bnodes 1 iris 2 literals 3 quoted triples 4 variables */ Atoms(u64) }
+#[derive(Clone, Debug)]
+enum DObs { Matching(MD, MD, MD, GD), All, Contains(Q4), /** ... 3 graph_names */ Terms(u8), Atoms(u64) }
 #[derive(Clone, Debug, PartialEq)]
-enum Out { Flag(bool), Triples(Vec<T3>), Quads(Vec<Q4>), Count(u64), Terms(Vec<Tid>), Err(String), Has(bool) }
+enum Out { Flag(bool), Triples(Vec<T3>), Quads(Vec<Q4>), Count(u64), Terms(Vec<Tid>), Err(String), Has(bool), OnlyDefault }
 
 #[derive(Clone, Debug)]
 enum GOp { Insert(Q4), Remove(Q4), Contains(Q4), Query(MD, MD, MD, GD), All, DirectInsert(T3), DirectRemove(T3),
@@ -39,7 +70,7 @@ enum GOp { Insert(Q4), Remove(Q4), Contains(Q4), Query(MD, MD, MD, GD), All, Dir
 #[derive(Clone, Debug, PartialEq)]
 enum GOut { Ok(bool), OnlyDefault, Bool(bool), Quads(Vec<Q4>), Err(String), Count(u64) }
 
-struct Ctx { pool: Vec<Vec<ST>> }
+struct Ctx { pool: Vec<Vec<ST>>, /** findings that are recorded but are not violations of C11 (see `soft_hint`) */ notes: std::cell::RefCell<std::collections::BTreeMap<String, u64>> }
 impl Ctx {
     fn term(&self, id: Tid, r: &mut Rng) -> ST { r.pick(&self.pool[(id - 1) as usize]).clone() }
     fn id<T: Term>(&self, t: T) -> Tid { class_id(&self.pool, t) }
@@ -89,50 +120,46 @@ macro_rules! terms_of { ($c:expr, $g:expr, $kind:expr) => {{
     match $kind { 0 => coll!($g.blank_nodes()), 1 => coll!($g.iris()), 2 => coll!($g.literals()), 3 => coll!($g.quoted_triples()), _ => coll!($g.variables()) }
     v.sort(); v.dedup(); match err { Some(e) => Out::Err(e), None => Out::Terms(v) }
 }}; }
-fn run_ds<D>(c: &Ctx, init: &[Q4], ops: &[Op], r: &mut Rng) -> Vec<Out>
-where D: MutableDataset + Default, D::Error: std::fmt::Debug, D::MutationError: std::fmt::Debug + From<D::Error>, for<'x> sophia_api::dataset::DTerm<'x, D>: Clone,
+/// one operation of the FIRST alphabet (unchanged), on any store
+fn old_step<D>(c: &Ctx, d: &mut D, op: &Op, r: &mut Rng) -> Out
+where D: MutableDataset, D::Error: std::fmt::Debug, D::MutationError: std::fmt::Debug + From<D::Error>, for<'x> sophia_api::dataset::DTerm<'x, D>: Clone,
 {
-    let mut d = D::default();
-    for (t, g) in init {
-        d.insert(c.term(t[0], r), c.term(t[1], r), c.term(t[2], r), g.map(|g| c.term(g, r))).unwrap();
-    }
-    let mut outs = vec![];
     macro_rules! triples { ($it:expr) => {{
         let mut v = vec![]; let mut err = None;
         for t in $it { match t { Ok(t) => v.push([c.id(t.s()), c.id(t.p()), c.id(t.o())]), Err(e) => { err = Some(format!("{e:?}")); break } } }
         match err { Some(e) => Out::Err(e), None => Out::Triples(sort3(v)) }
     }}; }
-    for op in ops {
+    {
         let o = match op {
             Op::DInsert((t, g)) => match d.insert(c.term(t[0], r), c.term(t[1], r), c.term(t[2], r), g.map(|g| c.term(g, r))) { Ok(b) => Out::Flag(b), Err(e) => Out::Err(format!("{e:?}")) },
             Op::DRemove((t, g)) => match d.remove(c.term(t[0], r), c.term(t[1], r), c.term(t[2], r), g.map(|g| c.term(g, r))) { Ok(b) => Out::Flag(b), Err(e) => Out::Err(format!("{e:?}")) },
             Op::VInsert(g, t) => {
-                let mut v = DatasetGraph::new(&mut d, g.map(|g| c.term(g, r)));
+                let mut v = DatasetGraph::new(&mut *d, g.map(|g| c.term(g, r)));
                 match v.insert(c.term(t[0], r), c.term(t[1], r), c.term(t[2], r)) { Ok(b) => Out::Flag(b), Err(e) => Out::Err(format!("{e:?}")) }
             }
             Op::VRemove(g, t) => {
-                let mut v = DatasetGraph::new(&mut d, g.map(|g| c.term(g, r)));
+                let mut v = DatasetGraph::new(&mut *d, g.map(|g| c.term(g, r)));
                 match v.remove(c.term(t[0], r), c.term(t[1], r), c.term(t[2], r)) { Ok(b) => Out::Flag(b), Err(e) => Out::Err(format!("{e:?}")) }
             }
-            Op::QUnion(s, p, o) => { let v = UnionGraph::new(&d); triples!(v.triples_matching(tm(c, s, r), tm(c, p, r), tm(c, o, r))) }
-            Op::QPUnion(g, s, p, o) => { let m = gm(c, g, r); let v = PartialUnionGraph::new(&d, m.matcher_ref()); triples!(v.triples_matching(tm(c, s, r), tm(c, p, r), tm(c, o, r))) }
-            Op::QGraph(g, s, p, o) => { let v = DatasetGraph::new(&d, g.map(|g| c.term(g, r))); triples!(v.triples_matching(tm(c, s, r), tm(c, p, r), tm(c, o, r))) }
-            Op::CUnion(t) => { let v = UnionGraph::new(&d); match v.contains(c.term(t[0], r), c.term(t[1], r), c.term(t[2], r)) { Ok(b) => Out::Has(b), Err(e) => Out::Err(format!("{e:?}")) } }
-            Op::CPUnion(g, t) => { let m = gm(c, g, r); let v = PartialUnionGraph::new(&d, m.matcher_ref()); match v.contains(c.term(t[0], r), c.term(t[1], r), c.term(t[2], r)) { Ok(b) => Out::Has(b), Err(e) => Out::Err(format!("{e:?}")) } }
-            Op::CGraph(g, t) => { let v = DatasetGraph::new(&d, g.map(|g| c.term(g, r))); match v.contains(c.term(t[0], r), c.term(t[1], r), c.term(t[2], r)) { Ok(b) => Out::Has(b), Err(e) => Out::Err(format!("{e:?}")) } }
-            Op::QGraphAll(g) => { let v = DatasetGraph::new(&d, g.map(|g| c.term(g, r))); triples!(v.triples()) }
-            Op::QUnionAll => { let v = UnionGraph::new(&d); triples!(v.triples()) }
-            Op::QPUnionAll(g) => { let m = gm(c, g, r); let v = PartialUnionGraph::new(&d, m.matcher_ref()); triples!(v.triples()) }
+            Op::QUnion(s, p, o) => { let v = UnionGraph::new(&*d); triples!(v.triples_matching(tm(c, s, r), tm(c, p, r), tm(c, o, r))) }
+            Op::QPUnion(g, s, p, o) => { let m = gm(c, g, r); let v = PartialUnionGraph::new(&*d, m.matcher_ref()); triples!(v.triples_matching(tm(c, s, r), tm(c, p, r), tm(c, o, r))) }
+            Op::QGraph(g, s, p, o) => { let v = DatasetGraph::new(&*d, g.map(|g| c.term(g, r))); triples!(v.triples_matching(tm(c, s, r), tm(c, p, r), tm(c, o, r))) }
+            Op::CUnion(t) => { let v = UnionGraph::new(&*d); match v.contains(c.term(t[0], r), c.term(t[1], r), c.term(t[2], r)) { Ok(b) => Out::Has(b), Err(e) => Out::Err(format!("{e:?}")) } }
+            Op::CPUnion(g, t) => { let m = gm(c, g, r); let v = PartialUnionGraph::new(&*d, m.matcher_ref()); match v.contains(c.term(t[0], r), c.term(t[1], r), c.term(t[2], r)) { Ok(b) => Out::Has(b), Err(e) => Out::Err(format!("{e:?}")) } }
+            Op::CGraph(g, t) => { let v = DatasetGraph::new(&*d, g.map(|g| c.term(g, r))); match v.contains(c.term(t[0], r), c.term(t[1], r), c.term(t[2], r)) { Ok(b) => Out::Has(b), Err(e) => Out::Err(format!("{e:?}")) } }
+            Op::QGraphAll(g) => { let v = DatasetGraph::new(&*d, g.map(|g| c.term(g, r))); triples!(v.triples()) }
+            Op::QUnionAll => { let v = UnionGraph::new(&*d); triples!(v.triples()) }
+            Op::QPUnionAll(g) => { let m = gm(c, g, r); let v = PartialUnionGraph::new(&*d, m.matcher_ref()); triples!(v.triples()) }
             Op::VRemoveMatching(g, s, p, o) => {
-                let mut v = DatasetGraph::new(&mut d, g.map(|g| c.term(g, r)));
+                let mut v = DatasetGraph::new(&mut *d, g.map(|g| c.term(g, r)));
                 match v.remove_matching(tm(c, s, r), tm(c, p, r), tm(c, o, r)) { Ok(n) => Out::Count(n as u64), Err(e) => Out::Err(format!("{e:?}")) }
             }
             Op::VRetainMatching(g, s, p, o) => {
-                let mut v = DatasetGraph::new(&mut d, g.map(|g| c.term(g, r)));
+                let mut v = DatasetGraph::new(&mut *d, g.map(|g| c.term(g, r)));
                 match v.retain_matching(tm(c, s, r), tm(c, p, r), tm(c, o, r)) { Ok(()) => Out::Flag(true), Err(e) => Out::Err(format!("{e:?}")) }
             }
-            Op::QUnionAtoms(k) => { let v = UnionGraph::new(&d); terms_of!(c, v, *k) }
-            Op::QGraphAtoms(g, k) => { let v = DatasetGraph::new(&d, g.map(|g| c.term(g, r))); terms_of!(c, v, *k) }
+            Op::QUnionAtoms(k) => { let v = UnionGraph::new(&*d); terms_of!(c, v, *k) }
+            Op::QGraphAtoms(g, k) => { let v = DatasetGraph::new(&*d, g.map(|g| c.term(g, r))); terms_of!(c, v, *k) }
             Op::QDirect(s, p, o, g) => {
                 let mut v = vec![]; let mut err = None;
                 for q in d.quads_matching(tm(c, s, r), tm(c, p, r), tm(c, o, r), gm(c, g, r)) {
@@ -140,10 +167,10 @@ where D: MutableDataset + Default, D::Error: std::fmt::Debug, D::MutationError: 
                 }
                 match err { Some(e) => Out::Err(e), None => Out::Quads(sort4(v)) }
             }
+            _ => unreachable!("widened operations are run by the per-store runners"),
         };
-        outs.push(o);
+        o
     }
-    outs
 }
 
 fn run_gad<G>(c: &Ctx, init: &[T3], ops: &[GOp], r: &mut Rng) -> Vec<GOut>
@@ -178,6 +205,538 @@ where G: MutableGraph + Default, G::Error: std::fmt::Debug + std::error::Error, 
     outs
 }
 
+// ================= widened alphabet: generic observations and per-store runners =================
+
+/// consume an iterator in one of several ways (the adapters return `impl Iterator`s whose size_hint / nth / fold /
+/// collect come from the wrapped store's iterators and from the mapping layers); every size_hint seen on the way is
+/// checked against what the iterator then really yields
+fn drain<I: Iterator>(mut it: I, mode: u8, bad: &mut Vec<String>) -> Vec<I::Item> {
+    let (lo, hi) = it.size_hint();
+    let v: Vec<I::Item> = match mode % 5 {
+        0 => { let mut v = vec![]; for x in it { v.push(x) } v }
+        1 => it.collect(),
+        2 => it.fold(vec![], |mut v, x| { v.push(x); v }),
+        3 => { let mut v = vec![]; let mut flip = false; loop { let x = if flip { it.next() } else { it.nth(0) }; flip = !flip; match x { Some(x) => v.push(x), None => break } } v }
+        _ => { // the hint must stay truthful after every step
+            let mut v = vec![];
+            loop {
+                let (l, h) = it.size_hint();
+                match it.next() {
+                    Some(x) => { if h == Some(0) { bad.push(format!("size_hint upper bound 0 after {} items but another item came", v.len())) } v.push(x) }
+                    None => { if l > 0 { bad.push(format!("size_hint lower bound {l} after {} items but the iterator was exhausted", v.len())) } break }
+                }
+            }
+            v
+        }
+    };
+    if v.len() < lo { bad.push(format!("size_hint ({lo},{hi:?}) but {} items: lower bound not reached", v.len())) }
+    if hi.map_or(false, |h| v.len() > h) { bad.push(format!("size_hint ({lo},{hi:?}) but {} items: upper bound exceeded", v.len())) }
+    v
+}
+fn ids3<T: Triple>(c: &Ctx, t: &T) -> T3 { [c.id(t.s()), c.id(t.p()), c.id(t.o())] }
+fn ids4<Q: Quad>(c: &Ctx, q: &Q) -> Q4 { ([c.id(q.s()), c.id(q.p()), c.id(q.o())], q.g().map(|g| c.id(g))) }
+/// canonical result of a fallible iterator of triples / quads / terms
+fn fin<X, E: std::fmt::Debug, Y>(items: Vec<Result<X, E>>, f: impl Fn(&X) -> Y) -> Result<Vec<Y>, String> {
+    let mut v = vec![];
+    for i in items { match i { Ok(x) => v.push(f(&x)), Err(e) => return Err(format!("{e:?}")) } }
+    Ok(v)
+}
+/// a second and third iterator built by the same call must agree with the drained one on count / nth / last
+fn cross<Y: PartialEq + std::fmt::Debug>(what: &str, v: &[Y], count: usize, k: usize, nth: Option<Y>, last: Option<Y>, bad: &mut Vec<String>) {
+    if count != v.len() { bad.push(format!("{what}: count() = {count} but {} items were yielded", v.len())) }
+    if nth.as_ref() != v.get(k) { bad.push(format!("{what}: nth({k}) = {nth:?} but item {k} of {} is {:?}", v.len(), v.get(k))) }
+    if last.as_ref() != v.last() { bad.push(format!("{what}: last() = {last:?} but the final item is {:?}", v.last())) }
+}
+/// resiter 0.5.0's FlatMapOk::size_hint and FilterMapOk::size_hint return the hint of the wrapped iterator unchanged (the
+/// former's own TODO says so), so the iterators of iris() / blank_nodes() / literals() / variables() / quoted_triples()
+/// (provided methods of Graph and Dataset) can yield more items than their upper bound, and the one of
+/// Dataset::graph_names() fewer than its lower bound. That is a defect of the dependency and not of the views
+/// (the same method on the store itself has it): it is counted in the summary and reported, not treated as a violation
+fn soft_hint(c: &Ctx, what: &str, hints: &[String]) {
+    for h in hints {
+        let kind = if h.contains("lower bound") { "lower bound not reached" } else { "upper bound exceeded" };
+        *c.notes.borrow_mut().entry(format!("finding (resiter 0.5.0 FlatMapOk/FilterMapOk::size_hint passes the wrapped hint through): {what}(): {kind}")).or_insert(0) += 1;
+    }
+}
+fn set_of(mut v: Vec<Tid>) -> Vec<Tid> { v.sort(); v.dedup(); v }
+
+/// every Graph method the property talks about except quoted_triples (see `qt_of!`), on any view type
+fn obs_graph<G: Graph>(c: &Ctx, g: &G, o: &GObs, dr: u8, r: &mut Rng) -> Out {
+    let mut bad: Vec<String> = vec![];
+    macro_rules! tri { ($what:expr, $mk:expr) => {{
+        match fin(drain($mk, dr, &mut bad), |t| ids3(c, t)) {
+            Err(e) => Out::Err(e),
+            Ok(v) => {
+                let k = r.below(v.len() + 2);
+                let count = $mk.count();
+                let nth = $mk.nth(k).map(|t| t.map(|t| ids3(c, &t)).ok()).flatten();
+                let last = $mk.last().map(|t| t.map(|t| ids3(c, &t)).ok()).flatten();
+                cross($what, &v, count, k, nth, last, &mut bad);
+                Out::Triples(sort3(v))
+            }
+        }
+    }}; }
+    macro_rules! terms { ($what:expr, $mk:expr) => {{
+        // the atom enumerations are built on resiter's flat_map_ok and graph_names() on its filter_map_ok, whose size_hints
+        // are the inner iterator's: see soft_hint
+        let soft = matches!($what, "blank_nodes" | "iris" | "literals" | "variables" | "graph_names");
+        let mut hints: Vec<String> = vec![];
+        let drained = drain($mk, dr, &mut hints);
+        if soft { soft_hint(c, $what, &hints) } else { bad.extend(hints) }
+        match fin(drained, |t| c.id(t.borrow_term())) {
+            Err(e) => Out::Err(e),
+            Ok(v) => {
+                let k = r.below(v.len() + 2);
+                let count = $mk.count();
+                let nth = $mk.nth(k).map(|t| t.map(|t| c.id(t)).ok()).flatten();
+                let last = $mk.last().map(|t| t.map(|t| c.id(t)).ok()).flatten();
+                cross($what, &v, count, k, nth, last, &mut bad);
+                Out::Terms(set_of(v))
+            }
+        }
+    }}; }
+    let out = match o {
+        GObs::Matching(s, p, ob) => {
+            let (ms, mp, mo) = (tm(c, s, r), tm(c, p, r), tm(c, ob, r));
+            tri!("triples_matching", g.triples_matching(ms.matcher_ref(), mp.matcher_ref(), mo.matcher_ref()))
+        }
+        GObs::All => tri!("triples", g.triples()),
+        GObs::Contains(t) => match g.contains(c.term(t[0], r), c.term(t[1], r), c.term(t[2], r)) { Ok(b) => Out::Flag(b), Err(e) => Out::Err(format!("{e:?}")) },
+        GObs::Terms(0) => terms!("subjects", g.subjects()),
+        GObs::Terms(1) => terms!("predicates", g.predicates()),
+        GObs::Terms(_) => terms!("objects", g.objects()),
+        GObs::Atoms(0) => terms!("blank_nodes", g.blank_nodes()),
+        GObs::Atoms(1) => terms!("iris", g.iris()),
+        GObs::Atoms(2) => terms!("literals", g.literals()),
+        GObs::Atoms(_) => terms!("variables", g.variables()),
+    };
+    if bad.is_empty() { out } else { Out::Err(bad.join("; ")) }
+}
+/// every Dataset method the property talks about except quoted_triples, on any view type
+fn obs_dataset<D: Dataset>(c: &Ctx, d: &D, o: &DObs, dr: u8, r: &mut Rng) -> Out {
+    let mut bad: Vec<String> = vec![];
+    macro_rules! qua { ($what:expr, $mk:expr) => {{
+        match fin(drain($mk, dr, &mut bad), |q| ids4(c, q)) {
+            Err(e) => Out::Err(e),
+            Ok(v) => {
+                let k = r.below(v.len() + 2);
+                let count = $mk.count();
+                let nth = $mk.nth(k).map(|q| q.map(|q| ids4(c, &q)).ok()).flatten();
+                let last = $mk.last().map(|q| q.map(|q| ids4(c, &q)).ok()).flatten();
+                cross($what, &v, count, k, nth, last, &mut bad);
+                Out::Quads(sort4(v))
+            }
+        }
+    }}; }
+    macro_rules! terms { ($what:expr, $mk:expr) => {{
+        // the atom enumerations are built on resiter's flat_map_ok and graph_names() on its filter_map_ok, whose size_hints
+        // are the inner iterator's: see soft_hint
+        let soft = matches!($what, "blank_nodes" | "iris" | "literals" | "variables" | "graph_names");
+        let mut hints: Vec<String> = vec![];
+        let drained = drain($mk, dr, &mut hints);
+        if soft { soft_hint(c, $what, &hints) } else { bad.extend(hints) }
+        match fin(drained, |t| c.id(t.borrow_term())) {
+            Err(e) => Out::Err(e),
+            Ok(v) => {
+                let k = r.below(v.len() + 2);
+                let count = $mk.count();
+                let nth = $mk.nth(k).map(|t| t.map(|t| c.id(t)).ok()).flatten();
+                let last = $mk.last().map(|t| t.map(|t| c.id(t)).ok()).flatten();
+                cross($what, &v, count, k, nth, last, &mut bad);
+                Out::Terms(set_of(v))
+            }
+        }
+    }}; }
+    let out = match o {
+        DObs::Matching(s, p, ob, gn) => {
+            let (ms, mp, mo, mg) = (tm(c, s, r), tm(c, p, r), tm(c, ob, r), gm(c, gn, r));
+            qua!("quads_matching", d.quads_matching(ms.matcher_ref(), mp.matcher_ref(), mo.matcher_ref(), mg.matcher_ref()))
+        }
+        DObs::All => qua!("quads", d.quads()),
+        DObs::Contains((t, gn)) => match d.contains(c.term(t[0], r), c.term(t[1], r), c.term(t[2], r), gn.map(|x| c.term(x, r))) { Ok(b) => Out::Flag(b), Err(e) => Out::Err(format!("{e:?}")) },
+        DObs::Terms(0) => terms!("subjects", d.subjects()),
+        DObs::Terms(1) => terms!("predicates", d.predicates()),
+        DObs::Terms(2) => terms!("objects", d.objects()),
+        DObs::Terms(_) => terms!("graph_names", d.graph_names()),
+        DObs::Atoms(0) => terms!("blank_nodes", d.blank_nodes()),
+        DObs::Atoms(1) => terms!("iris", d.iris()),
+        DObs::Atoms(2) => terms!("literals", d.literals()),
+        DObs::Atoms(_) => terms!("variables", d.variables()),
+    };
+    if bad.is_empty() { out } else { Out::Err(bad.join("; ")) }
+}
+/// quoted_triples() has a `Term: Clone` bound that a generic function cannot state for a borrowing view, hence a macro
+macro_rules! qt_of { ($c:expr, $v:expr, $dr:expr) => {{
+    let mut bad: Vec<String> = vec![];
+    let mut hints: Vec<String> = vec![];
+    let drained = drain($v.quoted_triples(), $dr, &mut hints);
+    soft_hint($c, "quoted_triples", &hints);
+    match fin(drained, |t| $c.id(t.borrow_term())) {
+        Err(e) => Out::Err(e),
+        Ok(v) => {
+            let n = $v.quoted_triples().count();
+            if n != v.len() { bad.push(format!("quoted_triples: count() = {n} but {} items were yielded", v.len())) }
+            if bad.is_empty() { Out::Terms(set_of(v)) } else { Out::Err(bad.join("; ")) }
+        }
+    }
+}}; }
+macro_rules! gobs { ($c:expr, $r:expr, $v:expr, $obs:expr, $dr:expr) => {{
+    let vref = &$v;
+    match $obs { GObs::Atoms(3) => qt_of!($c, vref, $dr), o => obs_graph($c, vref, o, $dr, $r) }
+}}; }
+macro_rules! dobs { ($c:expr, $r:expr, $v:expr, $obs:expr, $dr:expr) => {{
+    let vref = &$v;
+    match $obs { DObs::Atoms(3) => qt_of!($c, vref, $dr), o => obs_dataset($c, vref, o, $dr, $r) }
+}}; }
+/// one step from a dataset-valued expression (a reference) to a graph-valued view, by the Dataset methods
+macro_rules! with_hop { ($ds:expr, $hop:expr, $c:expr, $r:expr, $v:ident => $body:expr) => {
+    match $hop {
+        Hop::Union => { let $v = $ds.union_graph(); $body }
+        Hop::PUnion(gd) => { let m = gm($c, gd, $r); let $v = $ds.partial_union_graph(m.matcher_ref()); $body }
+        Hop::Graph(g) => { let name: Option<ST> = g.map(|g| $c.term(g, $r)); let $v = DatasetGraph::new($ds, name); $body }
+    }
+}; }
+/// walk `path` from the dataset-valued expression `root` (a reference), binding `ds` to a reference to the view reached
+macro_rules! at_path { ($root:expr, $path:expr, $how:expr, $c:expr, $r:expr, $ds:ident => $body:expr) => {
+    match &$path[..] {
+        [] => { let $ds = $root; $body }
+        [h1] => with_hop!($root, h1, $c, $r, v1 => match $how % 3 {
+            0 => { let x = v1.as_dataset(); let $ds = &x; $body }
+            1 => { let mut v1 = v1; let x = v1.as_dataset_mut(); let $ds = &x; $body }
+            _ => { let x = v1.into_dataset(); let $ds = &x; $body }
+        }),
+        [h1, h2] => with_hop!($root, h1, $c, $r, v1 => { let x1 = v1.as_dataset(); with_hop!(&x1, h2, $c, $r, v2 => { let x = v2.into_dataset(); let $ds = &x; $body }) }),
+        _ => unreachable!(),
+    }
+}; }
+
+/// does a mutation error mean "this view only has a default graph"?
+trait OnlyDef { fn only_default(&self) -> bool; }
+impl OnlyDef for Infallible { fn only_default(&self) -> bool { false } }
+impl OnlyDef for sophia_inmem::index::TermIndexFullError { fn only_default(&self) -> bool { false } }
+impl<E: std::error::Error + OnlyDef> OnlyDef for GraphAsDatasetMutationError<E> {
+    fn only_default(&self) -> bool { match self { GraphAsDatasetMutationError::OnlyDefaultGraph => true, GraphAsDatasetMutationError::Graph(e) => e.only_default() } }
+}
+fn flag<E: OnlyDef + std::fmt::Debug>(x: Result<bool, E>) -> Out {
+    match x { Ok(b) => Out::Flag(b), Err(e) if e.only_default() => Out::OnlyDefault, Err(e) => Out::Err(format!("{e:?}")) }
+}
+fn count<E: OnlyDef + std::fmt::Debug + std::error::Error>(x: Result<usize, StreamError<Infallible, E>>) -> Out {
+    match x { Ok(n) => Out::Count(n as u64), Err(StreamError::SinkError(e)) if e.only_default() => Out::OnlyDefault, Err(e) => Out::Err(format!("{e:?}")) }
+}
+// mutations through the `&mut T` forwarding impls (which forward EVERY method, provided ones included)
+fn fwd_dinsert<M: MutableDataset>(mut m: M, [s, p, o]: [ST; 3], g: Option<ST>) -> Result<bool, M::MutationError> { m.insert(s, p, o, g) }
+fn fwd_dremove<M: MutableDataset>(mut m: M, [s, p, o]: [ST; 3], g: Option<ST>) -> Result<bool, M::MutationError> { m.remove(s, p, o, g) }
+fn fwd_ginsert<M: MutableGraph>(mut m: M, [s, p, o]: [ST; 3]) -> Result<bool, M::MutationError> { m.insert(s, p, o) }
+fn fwd_gremove<M: MutableGraph>(mut m: M, [s, p, o]: [ST; 3]) -> Result<bool, M::MutationError> { m.remove(s, p, o) }
+fn fwd_dinsert_all<M: MutableDataset>(mut m: M, qs: Vec<([ST; 3], Option<ST>)>) -> Result<usize, StreamError<Infallible, M::MutationError>> { m.insert_all(qs.into_iter().into_source()) }
+fn fwd_dremove_all<M: MutableDataset>(mut m: M, qs: Vec<([ST; 3], Option<ST>)>) -> Result<usize, StreamError<Infallible, M::MutationError>> { m.remove_all(qs.into_iter().into_source()) }
+fn fwd_ginsert_all<M: MutableGraph>(mut m: M, ts: Vec<[ST; 3]>) -> Result<usize, StreamError<Infallible, M::MutationError>> { m.insert_all(ts.into_iter().into_source()) }
+fn fwd_gremove_all<M: MutableGraph>(mut m: M, ts: Vec<[ST; 3]>) -> Result<usize, StreamError<Infallible, M::MutationError>> { m.remove_all(ts.into_iter().into_source()) }
+fn fwd_gremove_matching<M: MutableGraph>(mut m: M, a: TM, b: TM, cc: TM) -> Result<usize, M::MutationError> where M::MutationError: From<M::Error> { m.remove_matching(a, b, cc) }
+fn fwd_gretain_matching<M: MutableGraph>(mut m: M, a: TM, b: TM, cc: TM) -> Result<(), M::MutationError> where M::MutationError: From<M::Error> { m.retain_matching(a, b, cc) }
+fn fwd_dremove_matching<M: MutableDataset>(mut m: M, a: TM, b: TM, cc: TM, g: GM) -> Result<usize, M::MutationError> where M::MutationError: From<M::Error> { m.remove_matching(a, b, cc, g) }
+fn fwd_dretain_matching<M: MutableDataset>(mut m: M, a: TM, b: TM, cc: TM, g: GM) -> Result<(), M::MutationError> where M::MutationError: From<M::Error> { m.retain_matching(a, b, cc, g) }
+
+fn spo(c: &Ctx, t: &T3, r: &mut Rng) -> [ST; 3] { [c.term(t[0], r), c.term(t[1], r), c.term(t[2], r)] }
+fn name(c: &Ctx, g: &Option<Tid>, r: &mut Rng) -> Option<ST> { g.map(|g| c.term(g, r)) }
+fn triples_of(c: &Ctx, items: &[Q4], r: &mut Rng) -> Vec<[ST; 3]> { items.iter().map(|(t, _)| spo(c, t, r)).collect() }
+fn quads_of(c: &Ctx, items: &[Q4], r: &mut Rng) -> Vec<([ST; 3], Option<ST>)> { items.iter().map(|(t, g)| (spo(c, t, r), name(c, g, r))).collect() }
+fn unit<E: std::fmt::Debug>(x: Result<(), E>) -> Out { match x { Ok(()) => Out::Flag(true), Err(e) => Out::Err(format!("{e:?}")) } }
+fn cnt<E: std::fmt::Debug>(x: Result<usize, E>) -> Out { match x { Ok(n) => Out::Count(n as u64), Err(e) => Out::Err(format!("{e:?}")) } }
+
+/// a dataset store whose enumerations can fail: a view must pass the error on (and a bulk mutation through a view must
+/// give up before changing anything); everything except quads / insert / remove is the trait's provided code
+#[derive(Default)]
+struct Flaky { inner: BTreeSet<Spog<ST>>, fail: bool }
+impl Dataset for Flaky {
+    type Quad<'x> = Spog<&'x ST>;
+    type Error = MyErr;
+    fn quads(&self) -> impl Iterator<Item = Result<Self::Quad<'_>, MyErr>> + '_ {
+        let head: Option<Result<Self::Quad<'_>, MyErr>> = if self.fail { Some(Err(MyErr(7))) } else { None };
+        head.into_iter().chain(self.inner.iter().map(|q| Ok(q.spog())))
+    }
+}
+impl sophia_api::dataset::SetDataset for Flaky {}
+impl MutableDataset for Flaky {
+    type MutationError = MyErr;
+    fn insert<TS: Term, TP: Term, TO: Term, TG: Term>(&mut self, s: TS, p: TP, o: TO, g: GraphName<TG>) -> Result<bool, MyErr> { Ok(MutableDataset::insert(&mut self.inner, s, p, o, g).unwrap()) }
+    fn remove<TS: Term, TP: Term, TO: Term, TG: Term>(&mut self, s: TS, p: TP, o: TO, g: GraphName<TG>) -> Result<bool, MyErr> { Ok(MutableDataset::remove(&mut self.inner, s, p, o, g).unwrap()) }
+}
+/// the same for a graph store
+#[derive(Default)]
+struct FlakyG { inner: BTreeSet<[ST; 3]>, fail: bool }
+impl Graph for FlakyG {
+    type Triple<'x> = [&'x ST; 3];
+    type Error = MyErr;
+    fn triples(&self) -> impl Iterator<Item = Result<Self::Triple<'_>, MyErr>> + '_ {
+        let head: Option<Result<Self::Triple<'_>, MyErr>> = if self.fail { Some(Err(MyErr(7))) } else { None };
+        head.into_iter().chain(self.inner.iter().map(|t| Ok(t.spo())))
+    }
+}
+impl sophia_api::graph::SetGraph for FlakyG {}
+impl MutableGraph for FlakyG {
+    type MutationError = MyErr;
+    fn insert<TS: Term, TP: Term, TO: Term>(&mut self, s: TS, p: TP, o: TO) -> Result<bool, MyErr> { Ok(MutableGraph::insert(&mut self.inner, s, p, o).unwrap()) }
+    fn remove<TS: Term, TP: Term, TO: Term>(&mut self, s: TS, p: TP, o: TO) -> Result<bool, MyErr> { Ok(MutableGraph::remove(&mut self.inner, s, p, o).unwrap()) }
+}
+impl OnlyDef for MyErr { fn only_default(&self) -> bool { false } }
+trait MaybeFlaky { fn set_fail(&mut self, _b: bool) { unreachable!("SetFail is generated for the flaky stores only") } }
+impl MaybeFlaky for Flaky { fn set_fail(&mut self, b: bool) { self.fail = b } }
+impl MaybeFlaky for FlakyG { fn set_fail(&mut self, b: bool) { self.fail = b } }
+
+/// the runner of a mixed history on one concrete dataset store type
+macro_rules! mk_ds_runner { ($fname:ident, $D:ty) => {
+fn $fname(c: &Ctx, init: &[Q4], ops: &[Op], r: &mut Rng) -> Vec<Out> {
+    let mut d: $D = <$D>::default();
+    for (t, g) in init { MutableDataset::insert(&mut d, c.term(t[0], r), c.term(t[1], r), c.term(t[2], r), g.map(|g| c.term(g, r))).unwrap(); }
+    let mut outs = vec![];
+    for op in ops {
+        let o = match op {
+            Op::GObs { path, hop, how, obs, dr } if path.is_empty() => {
+                // the view directly on the store, by every route
+                let (how, dr) = (*how, *dr);
+                match (hop, how % 7) {
+                    (Hop::Union, 0) => { let v = UnionGraph::new(&d); gobs!(c, r, v, obs, dr) }
+                    (Hop::Union, 1) => { let v = d.union_graph(); gobs!(c, r, v, obs, dr) }
+                    (Hop::Union, 2) => { let dd = &d; let v = UnionGraph::new(&dd); gobs!(c, r, v, obs, dr) }
+                    (Hop::Union, 3) => { let v = UnionGraph::new(&mut d); gobs!(c, r, v, obs, dr) }
+                    (Hop::Union, 4) => { let v = std::mem::take(&mut d).into_union_graph(); let o = gobs!(c, r, v, obs, dr); d = v.unwrap(); o }
+                    (Hop::Union, 5) => { let v0 = d.union_graph(); let v1 = v0; let _still_usable = v0; let vr = &v1; gobs!(c, r, vr, obs, dr) }
+                    (Hop::Union, _) => { let mut v = d.union_graph(); let vm = &mut v; gobs!(c, r, vm, obs, dr) }
+                    (Hop::PUnion(gd), 0) => { let m = gm(c, gd, r); let v = PartialUnionGraph::new(&d, m.matcher_ref()); gobs!(c, r, v, obs, dr) }
+                    (Hop::PUnion(gd), 1) => { let m = gm(c, gd, r); let v = d.partial_union_graph(m.matcher_ref()); gobs!(c, r, v, obs, dr) }
+                    (Hop::PUnion(gd), 2) => { let m = gm(c, gd, r); let dd = &d; let v = PartialUnionGraph::new(&dd, m.matcher_ref()); gobs!(c, r, v, obs, dr) }
+                    (Hop::PUnion(gd), 3) => { let m = gm(c, gd, r); let v = PartialUnionGraph::new(&mut d, m.matcher_ref()); gobs!(c, r, v, obs, dr) }
+                    (Hop::PUnion(gd), 4) => { let m = gm(c, gd, r); let v = PartialUnionGraph::new(std::mem::take(&mut d), m.matcher_ref()); let o = gobs!(c, r, v, obs, dr); d = v.unwrap().0; o }
+                    (Hop::PUnion(gd), 5) => { let m = gm(c, gd, r); let v0 = d.partial_union_graph(m.matcher_ref()); let v1 = v0; let _still_usable = v0; let vr = &v1; gobs!(c, r, vr, obs, dr) }
+                    (Hop::PUnion(gd), _) => { let m = gm(c, gd, r); let mut v = d.partial_union_graph(m.matcher_ref()); let vm = &mut v; gobs!(c, r, vm, obs, dr) }
+                    (Hop::Graph(g), 0) => { let v = DatasetGraph::new(&d, name(c, g, r)); gobs!(c, r, v, obs, dr) }
+                    (Hop::Graph(g), 1) => { let v = d.graph(name(c, g, r)); gobs!(c, r, v, obs, dr) }
+                    (Hop::Graph(g), 2) => { let dd = &d; let n = name(c, g, r); let v = DatasetGraph::new(&dd, n.as_ref()); gobs!(c, r, v, obs, dr) } // the name is a borrowed term
+                    (Hop::Graph(g), 3) => { let v = d.graph_mut(name(c, g, r)); gobs!(c, r, v, obs, dr) }
+                    (Hop::Graph(g), 4) => { let v = DatasetGraph::new(std::mem::take(&mut d), name(c, g, r)); let o = gobs!(c, r, v, obs, dr); d = v.unwrap().0; o }
+                    (Hop::Graph(g), 5) => { let v0 = d.graph(name(c, g, r)); let v1 = v0.clone(); let vr = &v1; let o = gobs!(c, r, vr, obs, dr); drop(v0); o }
+                    (Hop::Graph(g), _) => { let mut v = d.graph_mut(name(c, g, r)); let vm = &mut v; gobs!(c, r, vm, obs, dr) }
+                }
+            }
+            Op::GObs { path, hop, how, obs, dr } => {
+                let (how, dr) = (*how, *dr);
+                at_path!(&d, path, how, c, r, ds => with_hop!(ds, hop, c, r, v => gobs!(c, r, v, obs, dr)))
+            }
+            Op::DObs { path, how, obs, dr } if path.is_empty() => {
+                let (how, dr) = (*how, *dr);
+                match how % 3 {
+                    0 => dobs!(c, r, d, obs, dr),
+                    1 => { let dd = &d; dobs!(c, r, dd, obs, dr) }
+                    _ => { let dm = &mut d; dobs!(c, r, dm, obs, dr) }
+                }
+            }
+            Op::DObs { path, how, obs, dr } => {
+                let (how, dr) = (*how, *dr);
+                at_path!(&d, path, how, c, r, ds => { let x = ds; match how % 2 { 0 => dobs!(c, r, *x, obs, dr), _ => dobs!(c, r, x, obs, dr) } })
+            }
+            Op::Ins { gs, t, how } | Op::Rem { gs, t, how } => {
+                let ins = matches!(op, Op::Ins { .. });
+                let [s, p, o] = spo(c, t, r);
+                let g0 = name(c, &gs[0], r);
+                match (gs.len(), *how % 8) {
+                    (1, 0) => flag(if ins { MutableDataset::insert(&mut d, s, p, o, g0) } else { MutableDataset::remove(&mut d, s, p, o, g0) }),
+                    (1, 1) => flag(if ins { d.insert_quad(([s, p, o], g0)) } else { d.remove_quad(([s, p, o], g0)) }),
+                    (1, 2) => flag(if ins { fwd_dinsert(&mut d, [s, p, o], g0) } else { fwd_dremove(&mut d, [s, p, o], g0) }),
+                    (1, 3) => { let mut v = d.graph_mut(g0); flag(if ins { v.insert(s, p, o) } else { v.remove(s, p, o) }) }
+                    (1, 4) => { let mut v = DatasetGraph::new(&mut d, g0.as_ref()); flag(if ins { v.insert_triple([s, p, o]) } else { v.remove_triple([s, p, o]) }) }
+                    (1, 5) => { let mut v = DatasetGraph::new(std::mem::take(&mut d), g0); let x = flag(if ins { v.insert(s, p, o) } else { v.remove(s, p, o) }); d = v.unwrap().0; x }
+                    (1, 6) => { let mut dd = &mut d; let mut v = DatasetGraph::new(&mut dd, g0); flag(if ins { v.insert(s, p, o) } else { v.remove(s, p, o) }) }
+                    (1, _) => { let mut v = d.graph_mut(g0); flag(if ins { fwd_ginsert(&mut v, [s, p, o]) } else { fwd_gremove(&mut v, [s, p, o]) }) }
+                    (2, h) => {
+                        let g1 = name(c, &gs[1], r);
+                        match h % 4 {
+                            0 => { let mut v = d.graph_mut(g0); let mut x = v.as_dataset_mut(); flag(if ins { x.insert(s, p, o, g1) } else { x.remove(s, p, o, g1) }) }
+                            1 => { let mut v = d.graph_mut(g0); let mut x = v.as_dataset_mut(); flag(if ins { x.insert_quad(([s, p, o], g1)) } else { x.remove_quad(([s, p, o], g1)) }) }
+                            2 => { let mut x = DatasetGraph::new(&mut d, g0).into_dataset(); flag(if ins { x.insert(s, p, o, g1) } else { x.remove(s, p, o, g1) }) }
+                            _ => { let mut v = d.graph_mut(g0); let mut x = v.as_dataset_mut(); let mut v2 = DatasetGraph::new(&mut x, g1); flag(if ins { v2.insert(s, p, o) } else { v2.remove(s, p, o) }) }
+                        }
+                    }
+                    (_, h) => {
+                        let (g1, g2) = (name(c, &gs[1], r), name(c, &gs[2], r));
+                        let mut v = d.graph_mut(g0); let mut x = v.as_dataset_mut(); let mut v2 = DatasetGraph::new(&mut x, g1);
+                        match h % 2 {
+                            0 => { let mut x2 = v2.as_dataset_mut(); flag(if ins { x2.insert(s, p, o, g2) } else { x2.remove(s, p, o, g2) }) }
+                            _ => { let mut x2 = v2.into_dataset(); flag(if ins { fwd_dinsert(&mut x2, [s, p, o], g2) } else { fwd_dremove(&mut x2, [s, p, o], g2) }) }
+                        }
+                    }
+                }
+            }
+            Op::InsAll { gs, quads, items, how } | Op::RemAll { gs, quads, items, how } => {
+                let ins = matches!(op, Op::InsAll { .. });
+                match (gs.len(), *quads, *how % 3) {
+                    (0, _, 0) => { let qs = quads_of(c, items, r).into_iter().into_source(); count(if ins { d.insert_all(qs) } else { d.remove_all(qs) }) }
+                    (0, _, 1) => { let qs = quads_of(c, items, r); count(if ins { fwd_dinsert_all(&mut d, qs) } else { fwd_dremove_all(&mut d, qs) }) }
+                    (0, _, _) => { let qs: Vec<Gspo<ST>> = quads_of(c, items, r).into_iter().map(|(t, g)| (g, t)).collect(); let qs = qs.into_iter().into_source(); count(if ins { d.insert_all(qs) } else { d.remove_all(qs) }) }
+                    (1, false, h) => {
+                        let g0 = name(c, &gs[0], r); let ts = triples_of(c, items, r);
+                        match h {
+                            0 => { let mut v = d.graph_mut(g0); let ts = ts.into_iter().into_source(); count(if ins { v.insert_all(ts) } else { v.remove_all(ts) }) }
+                            1 => { let mut v = DatasetGraph::new(std::mem::take(&mut d), g0); let ts = ts.into_iter().into_source(); let x = count(if ins { v.insert_all(ts) } else { v.remove_all(ts) }); d = v.unwrap().0; x }
+                            _ => { let mut v = d.graph_mut(g0); count(if ins { fwd_ginsert_all(&mut v, ts) } else { fwd_gremove_all(&mut v, ts) }) }
+                        }
+                    }
+                    (1, true, h) => {
+                        let g0 = name(c, &gs[0], r); let qs = quads_of(c, items, r);
+                        let mut v = d.graph_mut(g0);
+                        match h {
+                            0 => { let mut x = v.as_dataset_mut(); let qs = qs.into_iter().into_source(); count(if ins { x.insert_all(qs) } else { x.remove_all(qs) }) }
+                            1 => { let mut x = v.into_dataset(); let qs = qs.into_iter().into_source(); count(if ins { x.insert_all(qs) } else { x.remove_all(qs) }) }
+                            _ => { let mut x = v.as_dataset_mut(); count(if ins { fwd_dinsert_all(&mut x, qs) } else { fwd_dremove_all(&mut x, qs) }) }
+                        }
+                    }
+                    (_, false, _) => {
+                        let (g0, g1) = (name(c, &gs[0], r), name(c, &gs[1], r)); let ts = triples_of(c, items, r).into_iter().into_source();
+                        let mut v = d.graph_mut(g0); let mut x = v.as_dataset_mut(); let mut v2 = DatasetGraph::new(&mut x, g1);
+                        count(if ins { v2.insert_all(ts) } else { v2.remove_all(ts) })
+                    }
+                    (_, true, _) => {
+                        let (g0, g1) = (name(c, &gs[0], r), name(c, &gs[1], r)); let qs = quads_of(c, items, r).into_iter().into_source();
+                        let mut v = d.graph_mut(g0); let mut x = v.as_dataset_mut(); let mut v2 = DatasetGraph::new(&mut x, g1); let mut x2 = v2.as_dataset_mut();
+                        count(if ins { x2.insert_all(qs) } else { x2.remove_all(qs) })
+                    }
+                }
+            }
+            Op::RemMatching { g, m, how } | Op::RetMatching { g, m, how } => {
+                let rem = matches!(op, Op::RemMatching { .. });
+                let g0 = name(c, g, r); let (a, b, cc) = (tm(c, &m.0, r), tm(c, &m.1, r), tm(c, &m.2, r));
+                match *how % 4 {
+                    0 => { let mut v = d.graph_mut(g0); if rem { cnt(v.remove_matching(a, b, cc)) } else { unit(v.retain_matching(a, b, cc)) } }
+                    1 => { let mut v = DatasetGraph::new(std::mem::take(&mut d), g0); let x = if rem { cnt(v.remove_matching(a, b, cc)) } else { unit(v.retain_matching(a, b, cc)) }; d = v.unwrap().0; x }
+                    2 => { let mut v = d.graph_mut(g0); if rem { cnt(fwd_gremove_matching(&mut v, a, b, cc)) } else { unit(fwd_gretain_matching(&mut v, a, b, cc)) } }
+                    _ => { let mut dd = &mut d; let mut v = DatasetGraph::new(&mut dd, g0); if rem { cnt(v.remove_matching(a, b, cc)) } else { unit(v.retain_matching(a, b, cc)) } }
+                }
+            }
+            Op::DRemMatching(s, p, o, g) => { let (a, b, cc, gg) = (tm(c, s, r), tm(c, p, r), tm(c, o, r), gm(c, g, r)); if r.chance(1, 2) { cnt(d.remove_matching(a, b, cc, gg)) } else { cnt(fwd_dremove_matching(&mut d, a, b, cc, gg)) } }
+            Op::DRetMatching(s, p, o, g) => { let (a, b, cc, gg) = (tm(c, s, r), tm(c, p, r), tm(c, o, r), gm(c, g, r)); if r.chance(1, 2) { unit(d.retain_matching(a, b, cc, gg)) } else { unit(fwd_dretain_matching(&mut d, a, b, cc, gg)) } }
+            Op::SetFail(b) => { d.set_fail(*b); Out::Flag(*b) }
+            old => old_step::<$D>(c, &mut d, old, r),
+        };
+        outs.push(o);
+    }
+    outs
+}
+}; }
+mk_ds_runner!(run_ds_fast, sophia_inmem::dataset::FastDataset);
+mk_ds_runner!(run_ds_light, sophia_inmem::dataset::LightDataset);
+mk_ds_runner!(run_ds_sfast, sophia_inmem::dataset::small::FastDataset);
+mk_ds_runner!(run_ds_slight, sophia_inmem::dataset::small::LightDataset);
+mk_ds_runner!(run_ds_hs, HashSet<Spog<ST>>);
+mk_ds_runner!(run_ds_bt, BTreeSet<Spog<ST>>);
+mk_ds_runner!(run_ds_hsg, HashSet<Gspo<ST>>);
+mk_ds_runner!(run_ds_btg, BTreeSet<Gspo<ST>>);
+mk_ds_runner!(run_ds_vec, Vec<Spog<ST>>);
+mk_ds_runner!(run_ds_vecg, Vec<Gspo<ST>>);
+mk_ds_runner!(run_ds_flaky, Flaky);
+impl MaybeFlaky for sophia_inmem::dataset::FastDataset {} impl MaybeFlaky for sophia_inmem::dataset::LightDataset {}
+impl MaybeFlaky for sophia_inmem::dataset::small::FastDataset {} impl MaybeFlaky for sophia_inmem::dataset::small::LightDataset {}
+impl MaybeFlaky for HashSet<Spog<ST>> {} impl MaybeFlaky for BTreeSet<Spog<ST>> {} impl MaybeFlaky for HashSet<Gspo<ST>> {} impl MaybeFlaky for BTreeSet<Gspo<ST>> {}
+impl MaybeFlaky for Vec<Spog<ST>> {} impl MaybeFlaky for Vec<Gspo<ST>> {}
+
+/// the runner of a widened history on one concrete GRAPH store type: every view goes through GraphAsDataset first
+/// (the state is the dataset whose only graph, the default one, is the store)
+macro_rules! mk_gr_runner { ($fname:ident, $G:ty) => {
+fn $fname(c: &Ctx, init: &[Q4], ops: &[Op], r: &mut Rng) -> Vec<Out> {
+    let mut g: $G = <$G>::default();
+    for (t, _) in init { MutableGraph::insert(&mut g, c.term(t[0], r), c.term(t[1], r), c.term(t[2], r)).unwrap(); }
+    let mut outs = vec![];
+    for op in ops {
+        let o = match op {
+            Op::GObs { path, hop, how, obs, dr } => {
+                let (how, dr) = (*how, *dr);
+                if path.is_empty() {
+                    match how % 4 {
+                        0 => { let x = g.as_dataset(); with_hop!(&x, hop, c, r, v => gobs!(c, r, v, obs, dr)) }
+                        1 => { let x = g.as_dataset_mut(); with_hop!(&x, hop, c, r, v => gobs!(c, r, v, obs, dr)) }
+                        2 => { let x = std::mem::take(&mut g).into_dataset(); let o = with_hop!(&x, hop, c, r, v => gobs!(c, r, v, obs, dr)); g = x.unwrap(); o }
+                        _ => { let x = GraphAsDataset::new(&g); let xr = &x; with_hop!(&xr, hop, c, r, v => gobs!(c, r, v, obs, dr)) }
+                    }
+                } else { let x = g.as_dataset(); at_path!(&x, path, how, c, r, ds => with_hop!(ds, hop, c, r, v => gobs!(c, r, v, obs, dr))) }
+            }
+            Op::DObs { path, how, obs, dr } => {
+                let (how, dr) = (*how, *dr);
+                if path.is_empty() {
+                    match how % 5 {
+                        0 => { let x = g.as_dataset(); dobs!(c, r, x, obs, dr) }
+                        1 => { let x = g.as_dataset_mut(); dobs!(c, r, x, obs, dr) }
+                        2 => { let x = std::mem::take(&mut g).into_dataset(); let o = dobs!(c, r, x, obs, dr); g = x.unwrap(); o }
+                        3 => { let x = GraphAsDataset::new(&g); let xr = &x; dobs!(c, r, xr, obs, dr) }
+                        _ => { let x = g.as_dataset(); let x2 = x; let _still_usable = x; dobs!(c, r, x2, obs, dr) }
+                    }
+                } else { let x = g.as_dataset(); at_path!(&x, path, how, c, r, ds => { let y = ds; dobs!(c, r, *y, obs, dr) }) }
+            }
+            Op::Ins { gs, t, how } | Op::Rem { gs, t, how } => {
+                let ins = matches!(op, Op::Ins { .. });
+                let [s, p, o] = spo(c, t, r);
+                match (gs.len(), *how % 4) {
+                    (1, 0) => flag(if ins { MutableGraph::insert(&mut g, s, p, o) } else { MutableGraph::remove(&mut g, s, p, o) }),
+                    (1, 1) => flag(if ins { g.insert_triple([s, p, o]) } else { g.remove_triple([s, p, o]) }),
+                    (1, 2) => flag(if ins { fwd_ginsert(&mut g, [s, p, o]) } else { fwd_gremove(&mut g, [s, p, o]) }),
+                    (1, _) => { let mut x = g.as_dataset_mut(); let mut v = DatasetGraph::new(&mut x, None::<ST>); flag(if ins { v.insert(s, p, o) } else { v.remove(s, p, o) }) }
+                    (2, h) => {
+                        let g1 = name(c, &gs[1], r);
+                        match h {
+                            0 => { let mut x = g.as_dataset_mut(); flag(if ins { x.insert(s, p, o, g1) } else { x.remove(s, p, o, g1) }) }
+                            1 => { let mut x = std::mem::take(&mut g).into_dataset(); let y = flag(if ins { x.insert_quad(([s, p, o], g1)) } else { x.remove_quad(([s, p, o], g1)) }); g = x.unwrap(); y }
+                            2 => { let mut x = g.as_dataset_mut(); flag(if ins { fwd_dinsert(&mut x, [s, p, o], g1) } else { fwd_dremove(&mut x, [s, p, o], g1) }) }
+                            _ => { let mut x = g.as_dataset_mut(); let mut v = DatasetGraph::new(&mut x, g1); flag(if ins { v.insert(s, p, o) } else { v.remove(s, p, o) }) }
+                        }
+                    }
+                    (_, h) => {
+                        let (g1, g2) = (name(c, &gs[1], r), name(c, &gs[2], r));
+                        let mut x = g.as_dataset_mut(); let mut v = DatasetGraph::new(&mut x, g1);
+                        match h % 2 {
+                            0 => { let mut x2 = v.as_dataset_mut(); flag(if ins { x2.insert(s, p, o, g2) } else { x2.remove(s, p, o, g2) }) }
+                            _ => { let mut x2 = v.as_dataset_mut(); let mut v2 = DatasetGraph::new(&mut x2, g2); flag(if ins { v2.insert_triple([s, p, o]) } else { v2.remove_triple([s, p, o]) }) }
+                        }
+                    }
+                }
+            }
+            Op::InsAll { gs, quads, items, how } | Op::RemAll { gs, quads, items, how } => {
+                let ins = matches!(op, Op::InsAll { .. });
+                match (gs.len(), *quads, *how % 2) {
+                    (1, false, 0) => { let ts = triples_of(c, items, r).into_iter().into_source(); count(if ins { g.insert_all(ts) } else { g.remove_all(ts) }) }
+                    (1, false, _) => { let ts = triples_of(c, items, r); count(if ins { fwd_ginsert_all(&mut g, ts) } else { fwd_gremove_all(&mut g, ts) }) }
+                    (1, true, 0) => { let qs = quads_of(c, items, r).into_iter().into_source(); let mut x = g.as_dataset_mut(); count(if ins { x.insert_all(qs) } else { x.remove_all(qs) }) }
+                    (1, true, _) => { let qs = quads_of(c, items, r).into_iter().into_source(); let mut x = std::mem::take(&mut g).into_dataset(); let y = count(if ins { x.insert_all(qs) } else { x.remove_all(qs) }); g = x.unwrap(); y }
+                    (_, false, _) => { let g1 = name(c, &gs[1], r); let ts = triples_of(c, items, r).into_iter().into_source(); let mut x = g.as_dataset_mut(); let mut v = DatasetGraph::new(&mut x, g1); count(if ins { v.insert_all(ts) } else { v.remove_all(ts) }) }
+                    (_, true, _) => { let g1 = name(c, &gs[1], r); let qs = quads_of(c, items, r).into_iter().into_source(); let mut x = g.as_dataset_mut(); let mut v = DatasetGraph::new(&mut x, g1); let mut x2 = v.as_dataset_mut(); count(if ins { x2.insert_all(qs) } else { x2.remove_all(qs) }) }
+                }
+            }
+            Op::RemMatching { m, how, .. } | Op::RetMatching { m, how, .. } => {
+                // on the store itself (a view over GraphAsDataset cannot offer them: its mutation error has no From<Error>)
+                let rem = matches!(op, Op::RemMatching { .. });
+                let (a, b, cc) = (tm(c, &m.0, r), tm(c, &m.1, r), tm(c, &m.2, r));
+                match *how % 2 {
+                    0 => if rem { cnt(g.remove_matching(a, b, cc)) } else { unit(g.retain_matching(a, b, cc)) },
+                    _ => if rem { cnt(fwd_gremove_matching(&mut g, a, b, cc)) } else { unit(fwd_gretain_matching(&mut g, a, b, cc)) },
+                }
+            }
+            Op::SetFail(b) => { g.set_fail(*b); Out::Flag(*b) }
+            other => unreachable!("not generated for graph stores: {other:?}"),
+        };
+        outs.push(o);
+    }
+    outs
+}
+}; }
+mk_gr_runner!(run_gr_fast, sophia_inmem::graph::FastGraph);
+mk_gr_runner!(run_gr_light, sophia_inmem::graph::LightGraph);
+mk_gr_runner!(run_gr_sfast, sophia_inmem::graph::small::FastGraph);
+mk_gr_runner!(run_gr_slight, sophia_inmem::graph::small::LightGraph);
+mk_gr_runner!(run_gr_hs, HashSet<[ST; 3]>);
+mk_gr_runner!(run_gr_bt, BTreeSet<[ST; 3]>);
+mk_gr_runner!(run_gr_vec, Vec<[ST; 3]>);
+mk_gr_runner!(run_gr_flaky, FlakyG);
+impl MaybeFlaky for sophia_inmem::graph::FastGraph {} impl MaybeFlaky for sophia_inmem::graph::LightGraph {}
+impl MaybeFlaky for sophia_inmem::graph::small::FastGraph {} impl MaybeFlaky for sophia_inmem::graph::small::LightGraph {}
+impl MaybeFlaky for HashSet<[ST; 3]> {} impl MaybeFlaky for BTreeSet<[ST; 3]> {} impl MaybeFlaky for Vec<[ST; 3]> {}
+
 // ---------- naive oracle (independent of the Coq model) ----------
 fn md_ok(m: &MD, t: Tid) -> bool { match m { MD::Any => true, MD::OneOf(l) => l.contains(&t), MD::NotOneOf(l) => !l.contains(&t) } }
 fn gd_ok(m: &GD, g: Option<Tid>) -> bool { match m { GD::Any => true, GD::OneOf(l) => l.contains(&g), GD::NotOneOf(l) => !l.contains(&g) } }
@@ -195,16 +754,84 @@ fn atoms_oracle(ts: Vec<T3>, kind: u64) -> Vec<Tid> {
     for t in ts { for x in t { let (_, atoms, tc) = pool_info(x); if kind == 3 { v.extend(tc) } else { v.extend(atoms.into_iter().filter(|a| pool_info(*a).0 == kind)) } } }
     v.sort(); v.dedup(); v
 }
-fn oracle_ds(init: &[Q4], ops: &[Op]) -> Vec<Out> {
+fn atoms_of_terms(terms: impl Iterator<Item = Tid>, kind: u64) -> Vec<Tid> {
+    let mut v: Vec<Tid> = vec![];
+    for x in terms { let (_, atoms, tc) = pool_info(x); if kind == 3 { v.extend(tc) } else { v.extend(atoms.into_iter().filter(|a| pool_info(*a).0 == kind)) } }
+    v.sort(); v.dedup(); v
+}
+/// what a graph-valued view shows: a multiset of triples
+fn hop_triples(qs: &[Q4], h: &Hop) -> Vec<T3> {
+    qs.iter().filter(|q| match h { Hop::Union => true, Hop::PUnion(gd) => gd_ok(gd, q.1), Hop::Graph(g) => q.1 == *g }).map(|q| q.0).collect()
+}
+/// what the dataset-valued view store.p0().as_dataset().p1().as_dataset()... shows: each graph view seen as a
+/// dataset has its triples in the default graph, and nothing else
+fn path_quads(qs: &[Q4], p: &[Hop]) -> Vec<Q4> {
+    let mut cur = qs.to_vec();
+    for h in p { cur = hop_triples(&cur, h).into_iter().map(|t| (t, None)).collect() }
+    cur
+}
+fn gobs_oracle(ts: &[T3], o: &GObs) -> Out {
+    match o {
+        GObs::Matching(s, p, ob) => Out::Triples(sort3(ts.iter().filter(|t| t_ok(s, p, ob, t)).cloned().collect())),
+        GObs::All => Out::Triples(sort3(ts.to_vec())),
+        GObs::Contains(t) => Out::Flag(ts.contains(t)),
+        GObs::Terms(k) => Out::Terms(set_of(ts.iter().map(|t| t[(*k).min(2) as usize]).collect())),
+        GObs::Atoms(k) => Out::Terms(atoms_of_terms(ts.iter().flat_map(|t| t.iter().cloned()), *k)),
+    }
+}
+fn dobs_oracle(qs: &[Q4], o: &DObs) -> Out {
+    match o {
+        DObs::Matching(s, p, ob, g) => Out::Quads(sort4(qs.iter().filter(|q| gd_ok(g, q.1) && t_ok(s, p, ob, &q.0)).cloned().collect())),
+        DObs::All => Out::Quads(sort4(qs.to_vec())),
+        DObs::Contains(q) => Out::Flag(qs.contains(q)),
+        DObs::Terms(k) if *k < 3 => Out::Terms(set_of(qs.iter().map(|q| q.0[*k as usize]).collect())),
+        DObs::Terms(_) => Out::Terms(set_of(qs.iter().filter_map(|q| q.1).collect())),
+        DObs::Atoms(k) => Out::Terms(atoms_of_terms(qs.iter().flat_map(|q| q.0.iter().cloned().chain(q.1)), *k)),
+    }
+}
+/// the graph of the store in which a mutation through graph_mut(gs[0]).as_dataset_mut().graph_mut(gs[1])... lands:
+/// a graph seen as a dataset has a default graph only
+fn lands(gs: &[Option<Tid>]) -> Option<Option<Tid>> { if gs[1..].iter().all(|g| g.is_none()) { Some(gs[0]) } else { None } }
+/// the store's own semantics (what C01 is about): a set; or a Vec-backed bag whose insert always adds and answers true and
+/// whose remove either deletes every copy and answers true (Vec<Spog>, Vec<[T;3]>) or deletes one copy and answers
+/// whether there was one (Vec<Gspo>)
+#[derive(Clone, Copy, PartialEq, Debug)]
+enum Kind { Set, BagAll, BagOne }
+fn o_insert(set: &mut Vec<Q4>, bag: Kind, q: Q4) -> bool { if bag == Kind::Set && set.contains(&q) { false } else { set.push(q); true } }
+fn o_remove(set: &mut Vec<Q4>, bag: Kind, q: Q4) -> bool {
+    let pos = set.iter().position(|x| *x == q);
+    match bag { Kind::BagOne => { if let Some(i) = pos { set.remove(i); } pos.is_some() } Kind::BagAll => { set.retain(|x| *x != q); true } Kind::Set => { set.retain(|x| *x != q); pos.is_some() } }
+}
+/// a graph seen as a dataset answers without looking at the graph when only named graphs are asked for
+fn excludes_default(h: &Hop) -> bool { match h { Hop::Union => false, Hop::PUnion(gd) => !gd_ok(gd, None), Hop::Graph(g) => g.is_some() } }
+/// while the store's enumerations fail: does this operation report the error (true), or does it answer normally because it
+/// never enumerates the store (single insertions and removals; a question about named graphs put to a graph-as-dataset view)?
+fn fails(op: &Op, graph_store: bool) -> bool {
+    let skip = if graph_store { 0 } else { 1 };
+    match op {
+        Op::DInsert(..) | Op::DRemove(..) | Op::VInsert(..) | Op::VRemove(..) | Op::Ins { .. } | Op::Rem { .. } | Op::InsAll { .. } | Op::RemAll { .. } | Op::SetFail(..) => false,
+        Op::GObs { path, hop, .. } => !path.iter().chain(std::iter::once(hop)).skip(skip).any(excludes_default),
+        Op::DObs { path, obs, .. } => {
+            if path.is_empty() && !graph_store { return true }
+            let answered_by_the_adapter = match obs { DObs::Matching(_, _, _, g) => !gd_ok(g, None), DObs::Contains((_, g)) => g.is_some(), DObs::Terms(k) => *k >= 3, _ => false };
+            !answered_by_the_adapter && !path.iter().skip(skip).any(excludes_default)
+        }
+        _ => true,
+    }
+}
+fn oracle_ds(init: &[Q4], ops: &[Op], bag: Kind, graph_store: bool) -> Vec<Out> {
     let mut set: Vec<Q4> = vec![];
-    for q in init { if !set.contains(q) { set.push(*q) } }
+    for q in init { o_insert(&mut set, bag, *q); }
     let mut outs = vec![];
+    let mut failing = false;
     for op in ops {
+        if failing && fails(op, graph_store) { outs.push(Out::Err("MyErr(7)".into())); continue }
         outs.push(match op {
-            Op::DInsert(q) => { let b = !set.contains(q); if b { set.push(*q) } Out::Flag(b) }
-            Op::DRemove(q) => { let b = set.contains(q); set.retain(|x| x != q); Out::Flag(b) }
-            Op::VInsert(g, t) => { let q = (*t, *g); let b = !set.contains(&q); if b { set.push(q) } Out::Flag(b) }
-            Op::VRemove(g, t) => { let q = (*t, *g); let b = set.contains(&q); set.retain(|x| *x != q); Out::Flag(b) }
+            Op::SetFail(b) => { failing = *b; Out::Flag(*b) }
+            Op::DInsert(q) => Out::Flag(o_insert(&mut set, bag, *q)),
+            Op::DRemove(q) => Out::Flag(o_remove(&mut set, bag, *q)),
+            Op::VInsert(g, t) => Out::Flag(o_insert(&mut set, bag, (*t, *g))),
+            Op::VRemove(g, t) => Out::Flag(o_remove(&mut set, bag, (*t, *g))),
             Op::QUnion(s, p, o) => Out::Triples(sort3(set.iter().filter(|q| t_ok(s, p, o, &q.0)).map(|q| q.0).collect())),
             Op::QPUnion(g, s, p, o) => Out::Triples(sort3(set.iter().filter(|q| gd_ok(g, q.1) && t_ok(s, p, o, &q.0)).map(|q| q.0).collect())),
             Op::QGraph(g, s, p, o) => Out::Triples(sort3(set.iter().filter(|q| q.1 == *g && t_ok(s, p, o, &q.0)).map(|q| q.0).collect())),
@@ -215,10 +842,32 @@ fn oracle_ds(init: &[Q4], ops: &[Op]) -> Vec<Out> {
             Op::QUnionAll => Out::Triples(sort3(set.iter().map(|q| q.0).collect())),
             Op::QPUnionAll(g) => Out::Triples(sort3(set.iter().filter(|q| gd_ok(g, q.1)).map(|q| q.0).collect())),
             Op::QDirect(s, p, o, g) => Out::Quads(sort4(set.iter().filter(|q| gd_ok(g, q.1) && t_ok(s, p, o, &q.0)).cloned().collect())),
-            Op::VRemoveMatching(g, s, p, o) => { let n = set.iter().filter(|q| q.1 == *g && t_ok(s, p, o, &q.0)).count(); set.retain(|q| !(q.1 == *g && t_ok(s, p, o, &q.0))); Out::Count(n as u64) }
-            Op::VRetainMatching(g, s, p, o) => { set.retain(|q| q.1 != *g || t_ok(s, p, o, &q.0)); Out::Flag(true) }
+            Op::VRemoveMatching(g, s, p, o) | Op::RemMatching { g, m: (s, p, o), .. } => { let n = set.iter().filter(|q| q.1 == *g && t_ok(s, p, o, &q.0)).count(); set.retain(|q| !(q.1 == *g && t_ok(s, p, o, &q.0))); Out::Count(n as u64) }
+            Op::VRetainMatching(g, s, p, o) | Op::RetMatching { g, m: (s, p, o), .. } => { set.retain(|q| q.1 != *g || t_ok(s, p, o, &q.0)); Out::Flag(true) }
             Op::QUnionAtoms(k) => Out::Terms(atoms_oracle(set.iter().map(|q| q.0).collect(), *k)),
             Op::QGraphAtoms(g, k) => Out::Terms(atoms_oracle(set.iter().filter(|q| q.1 == *g).map(|q| q.0).collect(), *k)),
+            Op::GObs { path, hop, obs, .. } => gobs_oracle(&hop_triples(&path_quads(&set, path), hop), obs),
+            Op::DObs { path, obs, .. } => dobs_oracle(&path_quads(&set, path), obs),
+            Op::Ins { gs, t, .. } => match lands(gs) { Some(g) => Out::Flag(o_insert(&mut set, bag, (*t, g))), None => Out::OnlyDefault },
+            Op::Rem { gs, t, .. } => match lands(gs) { Some(g) => Out::Flag(o_remove(&mut set, bag, (*t, g))), None => Out::Flag(false) },
+            Op::InsAll { gs, quads, items, .. } => {
+                let mut n = 0; let mut stopped = false;
+                for (t, g) in items {
+                    let mut full = gs.clone(); if *quads { full.push(*g) }
+                    match lands(&full) { Some(g0) => if o_insert(&mut set, bag, (*t, g0)) { n += 1 }, None => { stopped = true; break } }
+                }
+                if stopped { Out::OnlyDefault } else { Out::Count(n) }
+            }
+            Op::RemAll { gs, quads, items, .. } => {
+                let mut n = 0;
+                for (t, g) in items {
+                    let mut full = gs.clone(); if *quads { full.push(*g) }
+                    if let Some(g0) = lands(&full) { if o_remove(&mut set, bag, (*t, g0)) { n += 1 } }
+                }
+                Out::Count(n)
+            }
+            Op::DRemMatching(s, p, o, g) => { let n = set.iter().filter(|q| gd_ok(g, q.1) && t_ok(s, p, o, &q.0)).count(); set.retain(|q| !(gd_ok(g, q.1) && t_ok(s, p, o, &q.0))); Out::Count(n as u64) }
+            Op::DRetMatching(s, p, o, g) => { set.retain(|q| gd_ok(g, q.1) && t_ok(s, p, o, &q.0)); Out::Flag(true) }
         });
     }
     outs
@@ -283,6 +932,94 @@ fn gen_gop(r: &mut Rng) -> GOp {
     }
 }
 
+// ---------- generation of the widened alphabet ----------
+fn gen_hop(r: &mut Rng) -> Hop { match r.below(6) { 0 => Hop::Union, 1 | 2 => Hop::PUnion(gen_gd(r)), _ => Hop::Graph(gen_g(r)) } }
+/// a hop taken from a graph-as-dataset view: only the default graph is inhabited there
+fn gen_hop_nested(r: &mut Rng) -> Hop {
+    match r.below(8) { 0 | 1 => Hop::Union, 2 => Hop::PUnion(gen_gd(r)), 3 => Hop::PUnion(GD::OneOf(vec![None, gen_g(r)])), 4 => Hop::PUnion(GD::NotOneOf(vec![None])), 5 | 6 => Hop::Graph(None), _ => Hop::Graph(gen_g(r)) }
+}
+fn gen_path(r: &mut Rng, graph_store: bool) -> Vec<Hop> {
+    let n = match r.below(20) { 0..=9 => 0, 10..=16 => 1, _ => 2 };
+    (0..n).map(|k| if k == 0 && !graph_store { gen_hop(r) } else { gen_hop_nested(r) }).collect()
+}
+fn one(x: Tid) -> MD { MD::OneOf(vec![x]) }
+fn gen_gobs(r: &mut Rng, known: &[Q4]) -> GObs {
+    let hit = if !known.is_empty() && r.chance(2, 3) { Some(r.pick(known).0) } else { None };
+    match r.below(12) {
+        0 | 1 => GObs::Matching(gen_md(r), gen_md(r), gen_md(r)),
+        2 => match hit { Some(t) => GObs::Matching(one(t[0]), if r.chance(1, 2) { MD::Any } else { one(t[1]) }, one(t[2])), None => GObs::Matching(gen_md(r), gen_md(r), gen_md(r)) },
+        3 => GObs::All,
+        4 | 5 => GObs::Contains(hit.unwrap_or_else(|| gen_t3(r))),
+        6 | 7 => GObs::Terms(r.below(3) as u8),
+        _ => GObs::Atoms(r.below(5) as u64),
+    }
+}
+fn gen_dobs(r: &mut Rng, known: &[Q4], nested: bool) -> DObs {
+    let hit = if !known.is_empty() && r.chance(2, 3) { Some(*r.pick(known)) } else { None };
+    match r.below(12) {
+        0 | 1 => DObs::Matching(gen_md(r), gen_md(r), gen_md(r), gen_gd(r)),
+        2 => match hit { Some((t, g)) => DObs::Matching(one(t[0]), one(t[1]), one(t[2]), if r.chance(1, 2) { GD::OneOf(vec![g]) } else { GD::OneOf(vec![None, gen_g(r)]) }), None => DObs::Matching(gen_md(r), gen_md(r), gen_md(r), gen_gd(r)) },
+        3 => DObs::All,
+        4 | 5 => { let (t, g) = hit.unwrap_or_else(|| (gen_t3(r), gen_g(r))); DObs::Contains((t, if nested && r.chance(2, 3) { None } else { g })) }
+        6 | 7 => DObs::Terms(r.below(4) as u8),
+        _ => DObs::Atoms(r.below(5) as u64),
+    }
+}
+fn gen_gs(r: &mut Rng, graph_store: bool, n: usize) -> Vec<Option<Tid>> {
+    (0..n).map(|k| if k == 0 { if graph_store { None } else { gen_g(r) } } else if r.chance(2, 3) { None } else { *r.pick(&[Some(12), Some(4), Some(1)]) }).collect()
+}
+fn gen_items(r: &mut Rng, known: &[Q4], quads: bool, nested: bool) -> Vec<Q4> {
+    (0..r.range(1, 5)).map(|_| {
+        let t = if !known.is_empty() && r.chance(1, 2) { r.pick(known).0 } else { gen_t3(r) };
+        (t, if !quads { None } else if nested { if r.chance(4, 5) { None } else { Some(12) } } else { gen_g(r) })
+    }).collect()
+}
+/// one operation of the widened alphabet; `known` approximates what has been inserted so far
+fn gen_xop(r: &mut Rng, known: &mut Vec<Q4>, graph_store: bool) -> Op {
+    let (how, dr) = (r.below(256) as u8, r.below(5) as u8);
+    match r.below(24) {
+        0..=5 => { let path = gen_path(r, graph_store); let hop = if path.is_empty() && !graph_store { gen_hop(r) } else { gen_hop_nested(r) }; Op::GObs { path, hop, how, obs: gen_gobs(r, known), dr } }
+        6..=9 => { let path = gen_path(r, graph_store); let nested = graph_store || !path.is_empty(); Op::DObs { path, how, obs: gen_dobs(r, known, nested), dr } }
+        10..=14 => {
+            let depth = match r.below(10) { 0..=4 => 1, 5..=8 => 2, _ => 3 }; let gs = gen_gs(r, graph_store, depth);
+            let t = if !known.is_empty() && r.chance(1, 3) { r.pick(known).0 } else { gen_t3(r) };
+            if let Some(g) = lands(&gs) { known.push((t, g)) }
+            Op::Ins { gs, t, how }
+        }
+        15..=17 => {
+            let (t, g) = if !known.is_empty() && r.chance(2, 3) { *r.pick(known) } else { (gen_t3(r), gen_g(r)) };
+            let depth = match r.below(10) { 0..=4 => 1, 5..=8 => 2, _ => 3 }; let mut gs = gen_gs(r, graph_store, depth);
+            if !graph_store && r.chance(3, 4) { gs[0] = g }
+            Op::Rem { gs, t, how }
+        }
+        18 | 19 => {
+            // dataset stores: directly (no name), through graph_mut(g) (triples), through graph_mut(g).as_dataset_mut() (quads), one level deeper
+            let (n, quads) = if graph_store { *r.pick(&[(1, false), (1, true), (1, true), (2, false), (2, true)]) } else { *r.pick(&[(0, true), (1, false), (1, false), (1, true), (1, true), (2, false), (2, true)]) };
+            let gs = gen_gs(r, graph_store, n);
+            let items = gen_items(r, known, quads, n > 0);
+            for (t, g) in &items { let mut full = gs.clone(); if quads { full.push(*g) } match lands(&full) { Some(g0) => known.push((*t, g0)), None => break } }
+            Op::InsAll { gs, quads, items, how }
+        }
+        20 => {
+            let (n, quads) = if graph_store { *r.pick(&[(1, false), (1, true), (2, false), (2, true)]) } else { *r.pick(&[(0, true), (1, false), (1, true), (2, false), (2, true)]) };
+            Op::RemAll { gs: gen_gs(r, graph_store, n), quads, items: gen_items(r, known, quads, n > 0), how }
+        }
+        21 => Op::RemMatching { g: if graph_store { None } else { gen_g(r) }, m: (gen_md(r), gen_md(r), gen_md(r)), how },
+        22 => Op::RetMatching { g: if graph_store { None } else { gen_g(r) }, m: (gen_md(r), if r.chance(1, 2) { MD::Any } else { gen_md(r) }, gen_md(r)), how },
+        _ => if graph_store { Op::DObs { path: vec![], how, obs: DObs::All, dr } } else if r.chance(2, 3) { Op::DRemMatching(gen_md(r), gen_md(r), gen_md(r), gen_gd(r)) } else { Op::DRetMatching(gen_md(r), MD::Any, gen_md(r), if r.chance(1, 2) { GD::Any } else { gen_gd(r) }) },
+    }
+}
+/// did this operation go through a view (and not straight to the store)?
+fn through_view(op: &Op, graph_store: bool) -> bool {
+    match op {
+        Op::VInsert(..) | Op::VRemove(..) | Op::VRemoveMatching(..) | Op::VRetainMatching(..) => true,
+        Op::Ins { gs, how, .. } | Op::Rem { gs, how, .. } => gs.len() > 1 || if graph_store { how % 4 == 3 } else { how % 8 >= 3 },
+        Op::InsAll { gs, quads, .. } | Op::RemAll { gs, quads, .. } => if graph_store { gs.len() > 1 || *quads } else { !gs.is_empty() },
+        Op::RemMatching { .. } | Op::RetMatching { .. } => !graph_store,
+        _ => false,
+    }
+}
+
 // ---------- Coq printing ----------
 fn c_t3(t: &T3) -> String { format!("(mkT {} {} {})", t[0], t[1], t[2]) }
 fn c_g(g: &Option<Tid>) -> String { coq_opt(g.map(|g| g.to_string())) }
@@ -302,7 +1039,48 @@ fn c_op(o: &Op) -> String {
         Op::VRemoveMatching(g, s, p, o) => format!("VRemoveMatching {} {} {} {}", c_g(g), c_md(s), c_md(p), c_md(o)),
         Op::VRetainMatching(g, s, p, o) => format!("VRetainMatching {} {} {} {}", c_g(g), c_md(s), c_md(p), c_md(o)),
         Op::QUnionAtoms(k) => format!("QUnionAtoms {k}"), Op::QGraphAtoms(g, k) => format!("QGraphAtoms {} {k}", c_g(g)),
-        Op::CUnion(..) | Op::CPUnion(..) | Op::CGraph(..) => unreachable!("contains through a view is a pure observation checked by the oracle; it is not given to Coq"),
+        Op::CUnion(..) | Op::CPUnion(..) | Op::CGraph(..) => unreachable!("printed in the widened alphabet"),
+        _ => unreachable!("printed in the widened alphabet"),
+    }
+}
+fn c_hop(h: &Hop) -> String { match h { Hop::Union => "HUnion".into(), Hop::PUnion(g) => format!("(HPUnion {})", c_gd(g)), Hop::Graph(g) => format!("(HGraph {})", c_g(g)) } }
+fn c_gobs(o: &GObs) -> String {
+    match o { GObs::Matching(s, p, ob) => format!("(GOMatching {} {} {})", c_md(s), c_md(p), c_md(ob)), GObs::All => "GOAll".into(), GObs::Contains(t) => format!("(GOContains {})", c_t3(t)),
+              GObs::Terms(k) => format!("(GOTerms {k})"), GObs::Atoms(k) => format!("(GOAtoms {k})") }
+}
+fn c_dobs(o: &DObs) -> String {
+    match o { DObs::Matching(s, p, ob, g) => format!("(DOMatching {} {} {} {})", c_md(s), c_md(p), c_md(ob), c_gd(g)), DObs::All => "DOAll".into(), DObs::Contains(q) => format!("(DOContains {})", c_q4(q)),
+              DObs::Terms(k) => format!("(DOTerms {k})"), DObs::Atoms(k) => format!("(DOAtoms {k})") }
+}
+fn c_gs(gs: &[Option<Tid>]) -> String { coq_list(gs.iter().map(c_g)) }
+fn c_items(gs: &[Option<Tid>], quads: bool, items: &[Q4]) -> String {
+    coq_list(items.iter().map(|(t, g)| { let mut full = gs.to_vec(); if quads { full.push(*g) } format!("({}, {})", c_gs(&full), c_t3(t)) }))
+}
+/// an operation of a mixed history, in the model's two alphabets
+fn c_hop_op(o: &Op) -> String {
+    match o {
+        Op::CUnion(t) => format!("HNew (XGObs [] HUnion (GOContains {}))", c_t3(t)),
+        Op::CPUnion(g, t) => format!("HNew (XGObs [] (HPUnion {}) (GOContains {}))", c_gd(g), c_t3(t)),
+        Op::CGraph(g, t) => format!("HNew (XGObs [] (HGraph {}) (GOContains {}))", c_g(g), c_t3(t)),
+        Op::GObs { path, hop, obs, .. } => format!("HNew (XGObs {} {} {})", coq_list(path.iter().map(c_hop)), c_hop(hop), c_gobs(obs)),
+        Op::DObs { path, obs, .. } => format!("HNew (XDObs {} {})", coq_list(path.iter().map(c_hop)), c_dobs(obs)),
+        Op::Ins { gs, t, .. } => format!("HNew (XIns {} {})", c_gs(gs), c_t3(t)),
+        Op::Rem { gs, t, .. } => format!("HNew (XRem {} {})", c_gs(gs), c_t3(t)),
+        Op::InsAll { gs, quads, items, .. } => format!("HNew (XInsAll {})", c_items(gs, *quads, items)),
+        Op::RemAll { gs, quads, items, .. } => format!("HNew (XRemAll {})", c_items(gs, *quads, items)),
+        Op::RemMatching { g, m, .. } => format!("HNew (XRemMatching {} {} {} {})", c_g(g), c_md(&m.0), c_md(&m.1), c_md(&m.2)),
+        Op::RetMatching { g, m, .. } => format!("HNew (XRetMatching {} {} {} {})", c_g(g), c_md(&m.0), c_md(&m.1), c_md(&m.2)),
+        Op::DRemMatching(s, p, ob, g) => format!("HNew (XDRemMatching {} {} {} {})", c_md(s), c_md(p), c_md(ob), c_gd(g)),
+        Op::DRetMatching(s, p, ob, g) => format!("HNew (XDRetMatching {} {} {} {})", c_md(s), c_md(p), c_md(ob), c_gd(g)),
+        old => format!("HOld ({})", c_op(old)),
+    }
+}
+fn c_xout(o: &Out) -> String {
+    match o {
+        Out::Has(b) => format!("XO (OFlag {})", coq_bool(*b)),
+        Out::OnlyDefault => "XOnlyDefault".into(),
+        Out::Err(_) => "XOnlyDefault; XOnlyDefault".into(), // an error never matches the model: length differs
+        o => format!("XO ({})", c_out(o)),
     }
 }
 fn c_out(o: &Out) -> String {
@@ -311,7 +1089,7 @@ fn c_out(o: &Out) -> String {
         Out::Triples(l) => format!("OTriples {}", coq_list(l.iter().map(c_t3))),
         Out::Quads(l) => format!("OQuads {}", coq_list(l.iter().map(c_q4))),
         Out::Count(n) => format!("OCount {n}"), Out::Terms(l) => format!("OTerms {}", coq_list(l.iter().map(|x| x.to_string()))),
-        Out::Has(_) => unreachable!(),
+        Out::Has(_) | Out::OnlyDefault => unreachable!(),
         Out::Err(_) => "OFlag true; OFlag false".into(), // an error never matches the model: length differs
     }
 }
@@ -333,15 +1111,38 @@ fn c_gout(o: &GOut) -> String {
     }
 }
 
-const DS_STORES: [&str; 6] = ["FastDataset", "LightDataset", "small::FastDataset", "small::LightDataset", "HashSet<Spog>", "BTreeSet<Spog>"];
+const DS_STORES: [&str; 11] = ["FastDataset", "LightDataset", "small::FastDataset", "small::LightDataset", "HashSet<Spog>", "BTreeSet<Spog>", "HashSet<Gspo>", "BTreeSet<Gspo>", "Vec<Spog>", "Vec<Gspo>", "Flaky(BTreeSet<Spog>)"];
 const GR_STORES: [&str; 6] = ["FastGraph", "LightGraph", "small::FastGraph", "small::LightGraph", "HashSet<[T;3]>", "BTreeSet<[T;3]>"];
+const GX_STORES: [&str; 8] = ["FastGraph", "LightGraph", "small::FastGraph", "small::LightGraph", "HashSet<[T;3]>", "BTreeSet<[T;3]>", "Vec<[T;3]>", "Flaky(BTreeSet<[T;3]>)"];
+/// histogram of the routes taken by the widened operations
+fn bump_routes(sum: &mut Summary, o: &Op) {
+    let hk = |h: &Hop| match h { Hop::Union => "union", Hop::PUnion(_) => "punion", Hop::Graph(None) => "graph(default)", Hop::Graph(Some(_)) => "graph(named)" };
+    match o {
+        Op::GObs { path, hop, obs, dr, how } => {
+            sum.bump(&format!("graph view:{}{}{}", path.first().map_or(String::new(), |h| format!("{}.as_dataset.", hk(h))), if path.len() == 2 { "[one more hop].as_dataset." } else { "" }, hk(hop)));
+            if path.is_empty() { sum.bump(&format!("graph view route:{}", how % 7)) }
+            sum.bump(&format!("gobs:{}", format!("{obs:?}").split('(').next().unwrap())); sum.bump(&format!("drain:{dr}"));
+        }
+        Op::DObs { path, obs, .. } => {
+            sum.bump(&format!("dataset view:{}", match path.len() { 0 => "store".to_string(), n => format!("{}.as_dataset{}", hk(&path[0]), if n == 2 { ".[one more hop].as_dataset" } else { "" }) }));
+            sum.bump(&format!("dobs:{}", format!("{obs:?}").split('(').next().unwrap()));
+        }
+        Op::Ins { gs, .. } | Op::Rem { gs, .. } => { sum.bump(&format!("mutation depth:{} {}", gs.len(), if lands(gs).is_some() { "lands" } else { "named graph of a graph view" })); }
+        Op::InsAll { gs, quads, .. } | Op::RemAll { gs, quads, .. } => { sum.bump(&format!("bulk depth:{} {}", gs.len(), if *quads { "quads" } else { "triples" })); }
+        _ => {}
+    }
+}
+fn op_name(o: &Op) -> String { format!("{o:?}").split(|ch| ch == '(' || ch == ' ').next().unwrap().to_string() }
 
 fn main() {
     let a = parse_args();
-    let ctx = Ctx { pool: small_pool() };
+    let ctx = Ctx { pool: small_pool(), notes: Default::default() };
     assert_eq!(ctx.pool.len() as u64, NT);
     let mut sum = Summary::default();
-    sum.rule = "case = (store type, initial content, history of 1..40 mixed ops applied alternately through the store and through views; every second case is a graph-as-dataset history); \
+    sum.rule = "case = (store type, initial content, history of 1..40 mixed ops applied alternately through the store and through views, in two alphabets: the first one and the widened one \
+(views of views, every provided method of Graph/Dataset/MutableGraph/MutableDataset through every view type and route, bulk mutations, iterator consumption modes)); case index mod 4: 0 and 2 = a dataset store \
+(11 types: the in-memory ones, Hash/BTreeSet of Spog and Gspo, two Vec-backed bags, one whose enumerations fail on demand), 1 = a graph-as-dataset history in the first alphabet, \
+3 = a graph store (8 types, one a bag, one failing on demand) driven through GraphAsDataset in the widened alphabet; \
 non-trivial = at least one mutation through a view that changes the store AND at least one non-empty query result; distinct = distinct (store, init, ops) after printing".into();
     let mut cases: Vec<(usize, String)> = vec![];
     let mut seen = HashSet::new();
@@ -349,17 +1150,20 @@ non-trivial = at least one mutation through a view that changes the store AND at
     let range: Vec<usize> = match a.only { Some(i) => vec![i], None => (0..a.n).collect() };
     for idx in range {
         let mut r = base.fork(idx as u64);
-        let store = r.below(6);
         let nops = r.range(1, 40);
         let ninit = r.below(9);
         if idx % 2 == 0 {
+            let store = r.below(11);
+            let bag = match store { 8 => Kind::BagAll, 9 => Kind::BagOne, _ => Kind::Set };
             let mut init: Vec<Q4> = (0..ninit).map(|_| (gen_t3(&mut r), gen_g(&mut r))).collect();
             // triples shared by several graphs (a union view then shows them several times)
             for k in 0..init.len() { if r.chance(1, 3) { let t = init[k].0; init.push((t, gen_g(&mut r))); } }
             // state-aware generation: `known` approximates the quads inserted so far (removals ignored)
             let mut known: Vec<Q4> = init.clone();
+            let mut fail_now = false;
             let ops: Vec<Op> = (0..nops).map(|_| {
-                let one = |x: Tid| MD::OneOf(vec![x]);
+                if store == 10 && r.chance(1, if fail_now { 4 } else { 8 }) { fail_now = !fail_now; return Op::SetFail(fail_now) }
+                if r.chance(1, 2) { return gen_xop(&mut r, &mut known, false) }
                 if !known.is_empty() && r.chance(1, 6) {
                     let (t, g) = *r.pick(&known);
                     match r.below(11) {
@@ -379,29 +1183,75 @@ non-trivial = at least one mutation through a view that changes the store AND at
                 } else { let o = gen_op(&mut r); match &o { Op::DInsert(q) => known.push(*q), Op::VInsert(g, t) => known.push((*t, *g)), _ => {} } o }
             }).collect();
             let outs = match store {
-                0 => run_ds::<sophia_inmem::dataset::FastDataset>(&ctx, &init, &ops, &mut r),
-                1 => run_ds::<sophia_inmem::dataset::LightDataset>(&ctx, &init, &ops, &mut r),
-                2 => run_ds::<sophia_inmem::dataset::small::FastDataset>(&ctx, &init, &ops, &mut r),
-                3 => run_ds::<sophia_inmem::dataset::small::LightDataset>(&ctx, &init, &ops, &mut r),
-                4 => run_ds::<HashSet<Spog<ST>>>(&ctx, &init, &ops, &mut r),
-                _ => run_ds::<BTreeSet<Spog<ST>>>(&ctx, &init, &ops, &mut r),
+                0 => run_ds_fast(&ctx, &init, &ops, &mut r),
+                1 => run_ds_light(&ctx, &init, &ops, &mut r),
+                2 => run_ds_sfast(&ctx, &init, &ops, &mut r),
+                3 => run_ds_slight(&ctx, &init, &ops, &mut r),
+                4 => run_ds_hs(&ctx, &init, &ops, &mut r),
+                5 => run_ds_bt(&ctx, &init, &ops, &mut r),
+                6 => run_ds_hsg(&ctx, &init, &ops, &mut r),
+                7 => run_ds_btg(&ctx, &init, &ops, &mut r),
+                8 => run_ds_vec(&ctx, &init, &ops, &mut r),
+                9 => run_ds_vecg(&ctx, &init, &ops, &mut r),
+                _ => run_ds_flaky(&ctx, &init, &ops, &mut r),
             };
-            let exp = oracle_ds(&init, &ops);
+            let exp = oracle_ds(&init, &ops, bag, false);
             let text = format!("{} init={:?} ops={:?}", DS_STORES[store], init, ops);
             if a.only.is_some() { println!("CASE {idx}: {text}\nIMPL   {outs:?}\nORACLE {exp:?}"); }
             if outs != exp {
                 let k = outs.iter().zip(exp.iter()).position(|(x, y)| x != y).unwrap_or(0);
-                sum.oracle_failures.push((idx.to_string(), format!("store={} op#{k} {:?}: implementation returned {:?}, a plain set gives {:?}; full case: {text}", DS_STORES[store], ops.get(k), outs.get(k), exp.get(k))));
+                sum.oracle_failures.push((idx.to_string(), format!("store={} op#{k} {:?}: implementation returned {:?}, a plain {} store gives {:?}; full case: {text}", DS_STORES[store], ops.get(k), outs.get(k), format!("{bag:?}"), exp.get(k))));
             }
-            let changed = ops.iter().zip(outs.iter()).any(|(o, x)| (matches!(o, Op::VInsert(..) | Op::VRemove(..)) && *x == Out::Flag(true)) || matches!(x, Out::Count(n) if *n > 0));
+            let changed = ops.iter().zip(outs.iter()).any(|(o, x)| through_view(o, false) && (*x == Out::Flag(true) && !matches!(o, Op::VRetainMatching(..) | Op::RetMatching { .. }) || matches!(x, Out::Count(n) if *n > 0)));
             let nonempty = outs.iter().any(|x| matches!(x, Out::Triples(l) if !l.is_empty()) || matches!(x, Out::Quads(l) if !l.is_empty()));
             if seen.insert(text.clone()) && changed && nonempty { sum.distinct_nontrivial += 1; }
             sum.bump(&format!("store:{}", DS_STORES[store]));
-            for o in &ops { sum.bump(&format!("op:{}", format!("{o:?}").split('(').next().unwrap())); }
+            for o in &ops { sum.bump(&format!("op:{}", op_name(o))); bump_routes(&mut sum, o); }
             if sum.samples.len() < 3 { sum.samples.push(format!("case {idx}: {text} => {outs:?}")); }
-            let keep: Vec<usize> = (0..ops.len()).filter(|k| !matches!(ops[*k], Op::CUnion(..) | Op::CPUnion(..) | Op::CGraph(..))).collect();
-            cases.push((idx, format!("case_ok the_pool {} {} {}", coq_list(init.iter().map(c_q4)), coq_list(keep.iter().map(|k| c_op(&ops[*k]))), coq_list(keep.iter().map(|k| c_out(&outs[*k]))))));
+            // the model has no failing stores: the operations that are EXPECTED to report the injected error (they leave the
+            // state alone) and the switches are left out of the Coq case; an unexpected error stays in and disagrees
+            let keep: Vec<usize> = (0..ops.len()).filter(|k| !matches!(ops[*k], Op::SetFail(..)) && exp[*k] != Out::Err("MyErr(7)".into())).collect();
+            cases.push((idx, format!("xcase_ok {} the_pool {} {} {}", match bag { Kind::Set => "SSet", Kind::BagAll => "SBagAll", Kind::BagOne => "SBagOne" }, coq_list(init.iter().map(c_q4)), coq_list(keep.iter().map(|k| c_hop_op(&ops[*k]))), coq_list(keep.iter().map(|k| c_xout(&outs[*k]))))));
+        } else if idx % 4 == 3 {
+            // a graph store behind GraphAsDataset, widened alphabet: the state is the dataset whose default graph is the store
+            let store = r.below(8);
+            let bag = if store == 6 { Kind::BagAll } else { Kind::Set };
+            let init: Vec<Q4> = (0..ninit).map(|_| (gen_t3(&mut r), None)).collect();
+            let mut known: Vec<Q4> = init.clone();
+            let mut fail_now = false;
+            let ops: Vec<Op> = (0..nops).map(|_| {
+                if store == 7 && r.chance(1, if fail_now { 4 } else { 8 }) { fail_now = !fail_now; return Op::SetFail(fail_now) }
+                gen_xop(&mut r, &mut known, true)
+            }).collect();
+            let outs = match store {
+                0 => run_gr_fast(&ctx, &init, &ops, &mut r),
+                1 => run_gr_light(&ctx, &init, &ops, &mut r),
+                2 => run_gr_sfast(&ctx, &init, &ops, &mut r),
+                3 => run_gr_slight(&ctx, &init, &ops, &mut r),
+                4 => run_gr_hs(&ctx, &init, &ops, &mut r),
+                5 => run_gr_bt(&ctx, &init, &ops, &mut r),
+                6 => run_gr_vec(&ctx, &init, &ops, &mut r),
+                _ => run_gr_flaky(&ctx, &init, &ops, &mut r),
+            };
+            let exp = oracle_ds(&init, &ops, bag, true);
+            let text = format!("as_dataset of {} init={:?} ops={:?}", GX_STORES[store], init, ops);
+            if a.only.is_some() { println!("CASE {idx}: {text}\nIMPL   {outs:?}\nORACLE {exp:?}"); }
+            if outs != exp {
+                let k = outs.iter().zip(exp.iter()).position(|(x, y)| x != y).unwrap_or(0);
+                sum.oracle_failures.push((idx.to_string(), format!("store=as_dataset of {} op#{k} {:?}: implementation returned {:?}, a plain {} store gives {:?}; full case: {text}", GX_STORES[store], ops.get(k), outs.get(k), format!("{bag:?}"), exp.get(k))));
+            }
+            let changed = ops.iter().zip(outs.iter()).any(|(o, x)| through_view(o, true) && (*x == Out::Flag(true) || matches!(x, Out::Count(n) if *n > 0)));
+            let nonempty = outs.iter().any(|x| matches!(x, Out::Triples(l) if !l.is_empty()) || matches!(x, Out::Quads(l) if !l.is_empty()));
+            if seen.insert(text.clone()) && changed && nonempty { sum.distinct_nontrivial += 1; }
+            sum.bump(&format!("store:as_dataset of {}", GX_STORES[store]));
+            for o in &ops { sum.bump(&format!("xop:{}", op_name(o))); bump_routes(&mut sum, o); }
+            if sum.samples.len() < 4 { sum.samples.push(format!("case {idx}: {text} => {outs:?}")); }
+            // the model has no failing stores: the operations that are EXPECTED to report the injected error (they leave the
+            // state alone) and the switches are left out of the Coq case; an unexpected error stays in and disagrees
+            let keep: Vec<usize> = (0..ops.len()).filter(|k| !matches!(ops[*k], Op::SetFail(..)) && exp[*k] != Out::Err("MyErr(7)".into())).collect();
+            cases.push((idx, format!("xcase_ok {} the_pool {} {} {}", match bag { Kind::Set => "SSet", Kind::BagAll => "SBagAll", Kind::BagOne => "SBagOne" }, coq_list(init.iter().map(c_q4)), coq_list(keep.iter().map(|k| c_hop_op(&ops[*k]))), coq_list(keep.iter().map(|k| c_xout(&outs[*k]))))));
         } else {
+            let store = r.below(6);
             let init: Vec<T3> = (0..ninit).map(|_| gen_t3(&mut r)).collect();
             let ops: Vec<GOp> = (0..nops).map(|_| gen_gop(&mut r)).collect();
             let outs = match store {
@@ -436,6 +1286,7 @@ non-trivial = at least one mutation through a view that changes the store AND at
         }
         sum.evaluations += 1;
     }
+    for (k, v) in ctx.notes.borrow().iter() { sum.bump_by(k, *v); }
     if a.only.is_none() {
         let pool_def = format!("From Sophia.C11 Require Import Model.\nDefinition the_pool : pool := {}.", coq_list((1..=NT).map(|i| { let (k, at, tc) = pool_info(i); format!("({i}, ({k}, {}, {}))", coq_list(at.iter().map(|x| x.to_string())), coq_list(tc.iter().map(|x| x.to_string()))) })));
         sum.shards = write_shards(&a.out, &pool_def, &cases, a.shards);
